@@ -3,6 +3,7 @@ More lemmas about the regular Merkle tree model: the exact layer structure, the 
 `Append` (every proper aligned block of leaves is stored at its location), right witnesses.
 -/
 import LiskVerif.Lemmas.RMTProof
+import LiskVerif.Lemmas.Sort
 import Mathlib.Tactic.Ring
 import Mathlib.Tactic.Linarith
 namespace LiskVerif.RMT
@@ -2094,6 +2095,1629 @@ theorem verify_generated_single (hf : HashFns) (L : List Bytes) (k : Nat) (x : B
   simp only [Nat.pow_zero, Nat.div_one, Nat.zero_add, List.append_nil] at this
   rw [blk_leaf L k x hk, rootH_singleton, Nat.div_eq_of_lt hi1, blk_top_all L _ hnH] at this
   exact this
+
+
+/-! ### several leaves: the layer-by-layer specification of `calculatePathNodes` -/
+
+/-- nodes of one layer (position, value), ascending by position -/
+abbrev Lay := List (Nat × Bytes)
+
+/-- one node without its sibling in the list: the sibling hash comes from the proof, or the node is
+carried up when the sibling subtree is empty -/
+def stepOne (hf : HashFns) (n l k : Nat) (v : Bytes) (sibs : List Bytes) : Option (Bytes × List Bytes) :=
+  if sibOf k * 2 ^ l < n then
+    match sibs with
+    | [] => none
+    | s :: ss => some (if k % 2 = 0 then hf.branch v s else hf.branch s v, ss)
+  else some (v, sibs)
+
+/-- the parents of the nodes of one layer -/
+def layerStep (hf : HashFns) (n l : Nat) : Lay → List Bytes → Option (Lay × List Bytes)
+  | [], sibs => some ([], sibs)
+  | (k, v) :: rest, sibs =>
+    match rest with
+    | (k', w) :: rest' =>
+      if k % 2 = 0 ∧ k' = k + 1 then
+        match layerStep hf n l rest' sibs with
+        | none => none
+        | some (P, s) => some ((k / 2, hf.branch v w) :: P, s)
+      else
+        match stepOne hf n l k v sibs with
+        | none => none
+        | some (pv, ss) =>
+          match layerStep hf n l ((k', w) :: rest') ss with
+          | none => none
+          | some (P, s) => some ((k / 2, pv) :: P, s)
+    | [] =>
+      match stepOne hf n l k v sibs with
+      | none => none
+      | some (pv, ss) => some ([(k / 2, pv)], ss)
+
+/-- the root computed from the nodes of layer `l`, `f` layers below the root -/
+def calcSpec (hf : HashFns) (n : Nat) : Nat → Nat → Lay → List Bytes → Option Bytes
+  | 0, _, A, _ =>
+    match A with
+    | [(_, r)] => some r
+    | _ => none
+  | f + 1, l, A, sibs =>
+    match layerStep hf n l A sibs with
+    | none => none
+    | some (P, s) => calcSpec hf n f (l + 1) P s
+
+theorem layerStep_pair (hf : HashFns) (n l k : Nat) (v w : Bytes) (rest : Lay) (sibs : List Bytes) (hk : k % 2 = 0) :
+    layerStep hf n l ((k, v) :: (k + 1, w) :: rest) sibs =
+      match layerStep hf n l rest sibs with
+      | none => none
+      | some (P, s) => some ((k / 2, hf.branch v w) :: P, s) := by
+  rw [layerStep]; simp [hk]
+
+theorem layerStep_single (hf : HashFns) (n l k : Nat) (v : Bytes) (rest : Lay) (sibs : List Bytes)
+    (h : ∀ k' w rest', rest = (k', w) :: rest' → ¬ (k % 2 = 0 ∧ k' = k + 1)) :
+    layerStep hf n l ((k, v) :: rest) sibs =
+      match stepOne hf n l k v sibs with
+      | none => none
+      | some (pv, ss) =>
+        match layerStep hf n l rest ss with
+        | none => none
+        | some (P, s) => some ((k / 2, pv) :: P, s) := by
+  cases rest with
+  | nil =>
+    rw [layerStep]
+    cases stepOne hf n l k v sibs with
+    | none => rfl
+    | some x => obtain ⟨pv, ss⟩ := x; simp [layerStep]
+  | cons a rest' =>
+    obtain ⟨k', w⟩ := a
+    rw [layerStep]
+    simp only [if_neg (h k' w rest' rfl)]
+
+/-- positions of the layer: non-empty nodes -/
+def LayOK (n l : Nat) (A : Lay) : Prop := ∀ e ∈ A, e.1 * 2 ^ l < n
+
+theorem half_nonempty {n l k : Nat} (h : k * 2 ^ l < n) : k / 2 * 2 ^ (l + 1) < n := by
+  have : k / 2 * 2 ^ (l + 1) ≤ k * 2 ^ l := by
+    rw [Nat.pow_succ, Nat.mul_comm (2 ^ l) 2, ← Nat.mul_assoc]
+    exact Nat.mul_le_mul_right _ (Nat.div_mul_le_self k 2)
+  omega
+
+theorem layerStep_ok (hf : HashFns) (n l : Nat) : ∀ (m : Nat) (A : Lay) (sibs : List Bytes) (P : Lay) (s : List Bytes),
+    A.length = m → LayOK n l A → layerStep hf n l A sibs = some (P, s) → LayOK n (l + 1) P ∧ P.length ≤ A.length := by
+  intro m
+  induction m using Nat.strongRecOn with
+  | _ m ih =>
+    intro A sibs P s hm hok hs
+    match A, hm with
+    | [], _ =>
+      simp only [layerStep, Option.some.injEq, Prod.mk.injEq] at hs
+      rw [← hs.1]; exact ⟨(by intro e he; cases he), (by simp)⟩
+    | (k, v) :: rest, hm =>
+      have hk : k * 2 ^ l < n := hok (k, v) (by simp)
+      have hrest : LayOK n l rest := fun e he => hok e (by simp [he])
+      by_cases hp : ∃ w rest', rest = (k + 1, w) :: rest' ∧ k % 2 = 0
+      · obtain ⟨w, rest', rfl, hk2⟩ := hp
+        rw [layerStep_pair hf n l k v w rest' sibs hk2] at hs
+        cases hr : layerStep hf n l rest' sibs with
+        | none => rw [hr] at hs; cases hs
+        | some x =>
+          obtain ⟨P', s'⟩ := x
+          rw [hr] at hs
+          simp only [Option.some.injEq, Prod.mk.injEq] at hs
+          have hrest' : LayOK n l rest' := fun e he => hrest e (by simp [he])
+          obtain ⟨h1, h2⟩ := ih rest'.length (by simp at hm; omega) rest' sibs P' s' rfl hrest' hr
+          rw [← hs.1]
+          refine ⟨?_, by simp; omega⟩
+          intro e he
+          simp only [List.mem_cons] at he
+          rcases he with rfl | he
+          · exact half_nonempty hk
+          · exact h1 e he
+      · rw [layerStep_single hf n l k v rest sibs (by
+          intro k' w rest' e hc
+          exact hp ⟨w, rest', by rw [e, hc.2], hc.1⟩)] at hs
+        cases ho : stepOne hf n l k v sibs with
+        | none => rw [ho] at hs; cases hs
+        | some y =>
+          obtain ⟨pv, ss⟩ := y
+          rw [ho] at hs
+          simp only at hs
+          cases hr : layerStep hf n l rest ss with
+          | none => rw [hr] at hs; cases hs
+          | some x =>
+            obtain ⟨P', s'⟩ := x
+            rw [hr] at hs
+            simp only [Option.some.injEq, Prod.mk.injEq] at hs
+            obtain ⟨h1, h2⟩ := ih rest.length (by simp at hm; omega) rest ss P' s' rfl hrest hr
+            rw [← hs.1]
+            refine ⟨?_, by simp; omega⟩
+            intro e he
+            simp only [List.mem_cons] at he
+            rcases he with rfl | he
+            · exact half_nonempty hk
+            · exact h1 e he
+
+
+theorem stepOne_sound (hf : HashFns) (hinj : BranchInj hf) (L : List Bytes) (l k : Nat) (v pv : Bytes)
+    (sibs ss : List Bytes) (hk : k * 2 ^ l < L.length) (ho : stepOne hf L.length l k v sibs = some (pv, ss))
+    (hpv : pv = rootH hf (blk L (l + 1) (k / 2))) : v = rootH hf (blk L l k) := by
+  have hpar := rootH_blk_parent hf L l k hk
+  unfold stepOne at ho
+  by_cases hs : sibOf k * 2 ^ l < L.length
+  · rw [if_pos hs] at ho hpar
+    cases sibs with
+    | nil => cases ho
+    | cons s0 ss0 =>
+      simp only [Option.some.injEq, Prod.mk.injEq] at ho
+      rw [← ho.1, hpar] at hpv
+      by_cases hev : k % 2 = 0
+      · rw [if_pos hev, if_pos hev] at hpv
+        exact (hinj _ _ _ _ hpv).1
+      · rw [if_neg hev, if_neg hev] at hpv
+        exact (hinj _ _ _ _ hpv).2
+  · rw [if_neg hs] at ho hpar
+    simp only [Option.some.injEq, Prod.mk.injEq] at ho
+    rw [ho.1, hpv, hpar]
+
+theorem layerStep_sound (hf : HashFns) (hinj : BranchInj hf) (L : List Bytes) (l : Nat) :
+    ∀ (m : Nat) (A : Lay) (sibs : List Bytes) (P : Lay) (s : List Bytes),
+    A.length = m → LayOK L.length l A → layerStep hf L.length l A sibs = some (P, s) →
+    (∀ e ∈ P, e.2 = rootH hf (blk L (l + 1) e.1)) → ∀ e ∈ A, e.2 = rootH hf (blk L l e.1) := by
+  intro m
+  induction m using Nat.strongRecOn with
+  | _ m ih =>
+    intro A sibs P s hm hok hs hP e he
+    match A, hm with
+    | [], _ => cases he
+    | (k, v) :: rest, hm =>
+      have hk : k * 2 ^ l < L.length := hok (k, v) (by simp)
+      have hrest : LayOK L.length l rest := fun e he => hok e (by simp [he])
+      by_cases hp : ∃ w rest', rest = (k + 1, w) :: rest' ∧ k % 2 = 0
+      · obtain ⟨w, rest', rfl, hk2⟩ := hp
+        rw [layerStep_pair hf _ l k v w rest' sibs hk2] at hs
+        cases hr : layerStep hf L.length l rest' sibs with
+        | none => rw [hr] at hs; cases hs
+        | some x =>
+          obtain ⟨P', s'⟩ := x
+          rw [hr] at hs
+          simp only [Option.some.injEq, Prod.mk.injEq] at hs
+          have hrest' : LayOK L.length l rest' := fun e he => hrest e (by simp [he])
+          have hk1 : (k + 1) * 2 ^ l < L.length := hrest (k + 1, w) (by simp)
+          have hpv := hP (k / 2, hf.branch v w) (by rw [← hs.1]; simp)
+          simp only at hpv
+          rw [rootH_blk_pair hf L l (k / 2) (by rw [show 2 * (k / 2) + 1 = k + 1 by omega]; exact hk1),
+            show 2 * (k / 2) = k by omega] at hpv
+          obtain ⟨e1, e2⟩ := hinj _ _ _ _ hpv
+          simp only [List.mem_cons] at he
+          rcases he with rfl | rfl | he
+          · exact e1
+          · exact e2
+          · exact ih rest'.length (by simp at hm; omega) rest' sibs P' s' rfl hrest' hr
+              (fun e he => hP e (by rw [← hs.1]; simp [he])) e he
+      · rw [layerStep_single hf _ l k v rest sibs (by
+          intro k' w rest' e hc
+          exact hp ⟨w, rest', by rw [e, hc.2], hc.1⟩)] at hs
+        cases ho : stepOne hf L.length l k v sibs with
+        | none => rw [ho] at hs; cases hs
+        | some y =>
+          obtain ⟨pv, ss⟩ := y
+          rw [ho] at hs
+          simp only at hs
+          cases hr : layerStep hf L.length l rest ss with
+          | none => rw [hr] at hs; cases hs
+          | some x =>
+            obtain ⟨P', s'⟩ := x
+            rw [hr] at hs
+            simp only [Option.some.injEq, Prod.mk.injEq] at hs
+            simp only [List.mem_cons] at he
+            rcases he with rfl | he
+            · exact stepOne_sound hf hinj L l k v pv sibs ss hk ho (hP (k / 2, pv) (by rw [← hs.1]; simp))
+            · exact ih rest.length (by simp at hm; omega) rest ss P' s' rfl hrest hr
+                (fun e he => hP e (by rw [← hs.1]; simp [he])) e he
+
+/-- soundness of the specification: if the computed root is the root of `L`, every node of the layer
+has the value it has in the tree over `L` -/
+theorem calcSpec_sound (hf : HashFns) (hinj : BranchInj hf) (L : List Bytes) :
+    ∀ (f l : Nat) (A : Lay) (sibs : List Bytes), L.length ≤ 2 ^ (l + f) → LayOK L.length l A →
+    calcSpec hf L.length f l A sibs = some (rootH hf L) → ∀ e ∈ A, e.2 = rootH hf (blk L l e.1) := by
+  intro f
+  induction f with
+  | zero =>
+    intro l A sibs hn hok hc e he
+    simp only [calcSpec] at hc
+    split at hc
+    · rename_i k r
+      simp only [List.mem_singleton] at he
+      subst he
+      have hk := hok (k, r) (by simp)
+      simp only [Nat.add_zero] at hn hk
+      have hp : 0 < 2 ^ l := Nat.pow_pos (by decide)
+      have hk0 : k = 0 := by
+        rcases Nat.eq_zero_or_pos k with h | h
+        · exact h
+        · have : 2 ^ l ≤ k * 2 ^ l := Nat.le_mul_of_pos_left _ h
+          omega
+      subst hk0
+      simp only [Option.some.injEq] at hc
+      rw [blk_top_all L l hn]; exact hc
+    · cases hc
+  | succ f ih =>
+    intro l A sibs hn hok hc
+    simp only [calcSpec] at hc
+    cases hr : layerStep hf L.length l A sibs with
+    | none => rw [hr] at hc; cases hc
+    | some x =>
+      obtain ⟨P, s⟩ := x
+      rw [hr] at hc
+      simp only at hc
+      have hokP := (layerStep_ok hf L.length l A.length A sibs P s rfl hok hr).1
+      have := ih (l + 1) P s (by rw [show l + 1 + f = l + (f + 1) by omega]; exact hn) hokP hc
+      exact layerStep_sound hf hinj L l A.length A sibs P s rfl hok hr this
+
+
+/-! ### several leaves: the sibling hashes of a proof, layer by layer -/
+
+def sibOne (hf : HashFns) (L : List Bytes) (l k : Nat) : List Bytes :=
+  if sibOf k * 2 ^ l < L.length then [rootH hf (blk L l (sibOf k))] else []
+
+/-- the sibling hashes needed at one layer and the positions of the parents -/
+def sibLayer (hf : HashFns) (L : List Bytes) (l : Nat) : List Nat → List Bytes × List Nat
+  | [] => ([], [])
+  | k :: rest =>
+    match rest with
+    | k' :: rest' =>
+      if k % 2 = 0 ∧ k' = k + 1 then ((sibLayer hf L l rest').1, k / 2 :: (sibLayer hf L l rest').2)
+      else (sibOne hf L l k ++ (sibLayer hf L l (k' :: rest')).1, k / 2 :: (sibLayer hf L l (k' :: rest')).2)
+    | [] => (sibOne hf L l k, [k / 2])
+
+def sibSpec (hf : HashFns) (L : List Bytes) : Nat → Nat → List Nat → List Bytes
+  | 0, _, _ => []
+  | f + 1, l, A => (sibLayer hf L l A).1 ++ sibSpec hf L f (l + 1) (sibLayer hf L l A).2
+
+theorem sibLayer_pair (hf : HashFns) (L : List Bytes) (l k : Nat) (rest : List Nat) (hk : k % 2 = 0) :
+    sibLayer hf L l (k :: (k + 1) :: rest) = ((sibLayer hf L l rest).1, k / 2 :: (sibLayer hf L l rest).2) := by
+  rw [sibLayer]; simp [hk]
+
+theorem sibLayer_single (hf : HashFns) (L : List Bytes) (l k : Nat) (rest : List Nat)
+    (h : ∀ k' rest', rest = k' :: rest' → ¬ (k % 2 = 0 ∧ k' = k + 1)) :
+    sibLayer hf L l (k :: rest) = (sibOne hf L l k ++ (sibLayer hf L l rest).1, k / 2 :: (sibLayer hf L l rest).2) := by
+  cases rest with
+  | nil => rw [sibLayer]; simp [sibLayer]
+  | cons k' rest' => rw [sibLayer]; simp only [if_neg (h k' rest' rfl)]
+
+/-- the nodes with their values in the tree over `L` -/
+def valLay (hf : HashFns) (L : List Bytes) (l : Nat) (A : List Nat) : Lay := A.map fun k => (k, rootH hf (blk L l k))
+
+theorem stepOne_val (hf : HashFns) (L : List Bytes) (l k : Nat) (extra : List Bytes) (hk : k * 2 ^ l < L.length) :
+    stepOne hf L.length l k (rootH hf (blk L l k)) (sibOne hf L l k ++ extra)
+      = some (rootH hf (blk L (l + 1) (k / 2)), extra) := by
+  have hpar := rootH_blk_parent hf L l k hk
+  unfold stepOne sibOne
+  by_cases hs : sibOf k * 2 ^ l < L.length
+  · rw [if_pos hs] at hpar ⊢
+    rw [if_pos hs, hpar]
+    simp
+  · rw [if_neg hs] at hpar ⊢
+    rw [if_neg hs, hpar]
+    simp
+
+theorem layerStep_complete (hf : HashFns) (L : List Bytes) (l : Nat) : ∀ (m : Nat) (A : List Nat) (extra : List Bytes),
+    A.length = m → (∀ k ∈ A, k * 2 ^ l < L.length) →
+    layerStep hf L.length l (valLay hf L l A) ((sibLayer hf L l A).1 ++ extra)
+      = some (valLay hf L (l + 1) (sibLayer hf L l A).2, extra) := by
+  intro m
+  induction m using Nat.strongRecOn with
+  | _ m ih =>
+    intro A extra hm hok
+    match A, hm with
+    | [], _ => simp [sibLayer, valLay, layerStep]
+    | k :: rest, hm =>
+      have hk : k * 2 ^ l < L.length := hok k (by simp)
+      have hrest : ∀ k ∈ rest, k * 2 ^ l < L.length := fun e he => hok e (by simp [he])
+      by_cases hp : ∃ rest', rest = (k + 1) :: rest' ∧ k % 2 = 0
+      · obtain ⟨rest', rfl, hk2⟩ := hp
+        have hk1 : (k + 1) * 2 ^ l < L.length := hrest (k + 1) (by simp)
+        rw [sibLayer_pair hf L l k rest' hk2]
+        simp only [valLay, List.map_cons]
+        rw [layerStep_pair hf _ l k _ _ _ _ hk2]
+        have := ih rest'.length (by simp at hm; omega) rest' extra rfl (fun e he => hrest e (by simp [he]))
+        simp only [valLay] at this
+        rw [this]
+        simp only
+        rw [rootH_blk_pair hf L l (k / 2) (by rw [show 2 * (k / 2) + 1 = k + 1 by omega]; exact hk1),
+          show 2 * (k / 2) = k by omega, show k + 1 = 2 * (k / 2) + 1 by omega, show 2 * (k / 2) = k by omega]
+      · have hns : ∀ k' rest', rest = k' :: rest' → ¬ (k % 2 = 0 ∧ k' = k + 1) := by
+          intro k' rest' e hc
+          exact hp ⟨rest', by rw [e, hc.2], hc.1⟩
+        rw [sibLayer_single hf L l k rest hns]
+        simp only [valLay, List.map_cons]
+        rw [layerStep_single hf _ l k _ _ _ (by
+          intro k' w rest' e hc
+          cases rest with
+          | nil => simp at e
+          | cons a r =>
+            simp only [List.map_cons, List.cons.injEq, Prod.mk.injEq] at e
+            exact hns a r rfl ⟨hc.1, by rw [e.1.1]; exact hc.2⟩)]
+        rw [List.append_assoc, stepOne_val hf L l k _ hk]
+        simp only
+        have := ih rest.length (by simp at hm; omega) rest extra rfl hrest
+        simp only [valLay] at this
+        rw [this]
+
+theorem sibLayer_ok (hf : HashFns) (L : List Bytes) (l : Nat) : ∀ (m : Nat) (A : List Nat), A.length = m →
+    (∀ k ∈ A, k * 2 ^ l < L.length) → A.Pairwise (· < ·) →
+    (∀ k ∈ (sibLayer hf L l A).2, k * 2 ^ (l + 1) < L.length) ∧ (sibLayer hf L l A).2.Pairwise (· < ·) ∧
+    (∀ k ∈ (sibLayer hf L l A).2, ∃ a ∈ A, k = a / 2) ∧ ((sibLayer hf L l A).2 = [] → A = []) := by
+  intro m
+  induction m using Nat.strongRecOn with
+  | _ m ih =>
+    intro A hm hok hasc
+    match A, hm with
+    | [], _ => simp [sibLayer]
+    | k :: rest, hm =>
+      have hk : k * 2 ^ l < L.length := hok k (by simp)
+      have hrest : ∀ k ∈ rest, k * 2 ^ l < L.length := fun e he => hok e (by simp [he])
+      have hasc' := List.pairwise_cons.mp hasc
+      by_cases hp : ∃ rest', rest = (k + 1) :: rest' ∧ k % 2 = 0
+      · obtain ⟨rest', rfl, hk2⟩ := hp
+        rw [sibLayer_pair hf L l k rest' hk2]
+        have hasc'' := List.pairwise_cons.mp hasc'.2
+        obtain ⟨h1, h2, h3, _⟩ := ih rest'.length (by simp at hm; omega) rest' rfl
+          (fun e he => hrest e (by simp [he])) hasc''.2
+        refine ⟨?_, ?_, ?_, by simp⟩
+        · intro e he
+          simp only [List.mem_cons] at he
+          rcases he with rfl | he
+          · exact half_nonempty hk
+          · exact h1 e he
+        · refine List.pairwise_cons.mpr ⟨?_, h2⟩
+          intro e he
+          obtain ⟨a, ha, rfl⟩ := h3 e he
+          have := hasc''.1 a ha
+          omega
+        · intro e he
+          simp only [List.mem_cons] at he
+          rcases he with rfl | he
+          · exact ⟨k, by simp, rfl⟩
+          · obtain ⟨a, ha, e'⟩ := h3 e he
+            exact ⟨a, by simp [ha], e'⟩
+      · have hns : ∀ k' rest', rest = k' :: rest' → ¬ (k % 2 = 0 ∧ k' = k + 1) := by
+          intro k' rest' e hc
+          exact hp ⟨rest', by rw [e, hc.2], hc.1⟩
+        rw [sibLayer_single hf L l k rest hns]
+        obtain ⟨h1, h2, h3, _⟩ := ih rest.length (by simp at hm; omega) rest rfl hrest hasc'.2
+        refine ⟨?_, ?_, ?_, by simp⟩
+        · intro e he
+          simp only [List.mem_cons] at he
+          rcases he with rfl | he
+          · exact half_nonempty hk
+          · exact h1 e he
+        · refine List.pairwise_cons.mpr ⟨?_, h2⟩
+          intro e he
+          obtain ⟨a, ha, rfl⟩ := h3 e he
+          have hka := hasc'.1 a ha
+          -- `a` is not the right sibling of `k`
+          cases rest with
+          | nil => cases ha
+          | cons k' r =>
+            have hk' := hasc'.1 k' (by simp)
+            have hnot := hns k' r rfl
+            simp only [List.mem_cons] at ha
+            rcases ha with rfl | ha
+            · omega
+            · have := (List.pairwise_cons.mp hasc'.2).1 a ha
+              omega
+        · intro e he
+          simp only [List.mem_cons] at he
+          rcases he with rfl | he
+          · exact ⟨k, by simp, rfl⟩
+          · obtain ⟨a, ha, e'⟩ := h3 e he
+            exact ⟨a, by simp [ha], e'⟩
+
+/-- completeness of the specification: from the values of the tree and the sibling hashes of the
+specification, the root is recomputed -/
+theorem calcSpec_complete (hf : HashFns) (L : List Bytes) : ∀ (f l : Nat) (A : List Nat) (extra : List Bytes),
+    L.length ≤ 2 ^ (l + f) → A ≠ [] → (∀ k ∈ A, k * 2 ^ l < L.length) → A.Pairwise (· < ·) →
+    calcSpec hf L.length f l (valLay hf L l A) (sibSpec hf L f l A ++ extra) = some (rootH hf L) := by
+  intro f
+  induction f with
+  | zero =>
+    intro l A extra hn hne hok hasc
+    simp only [Nat.add_zero] at hn
+    have hp : 0 < 2 ^ l := Nat.pow_pos (by decide)
+    have hzero : ∀ k ∈ A, k = 0 := by
+      intro k hk
+      have := hok k hk
+      rcases Nat.eq_zero_or_pos k with h | h
+      · exact h
+      · have : 2 ^ l ≤ k * 2 ^ l := Nat.le_mul_of_pos_left _ h
+        omega
+    match A, hne with
+    | [k], _ =>
+      have := hzero k (by simp)
+      subst this
+      simp [calcSpec, valLay, blk_top_all L l hn]
+    | k :: k' :: r, _ =>
+      have h1 := hzero k (by simp)
+      have h2 := hzero k' (by simp)
+      have := (List.pairwise_cons.mp hasc).1 k' (by simp)
+      omega
+  | succ f ih =>
+    intro l A extra hn hne hok hasc
+    simp only [calcSpec, sibSpec]
+    rw [List.append_assoc, layerStep_complete hf L l A.length A _ rfl hok]
+    simp only
+    obtain ⟨h1, h2, _, h4⟩ := sibLayer_ok hf L l A.length A rfl hok hasc
+    exact ih (l + 1) _ extra (by rw [show l + 1 + f = l + (f + 1) by omega]; exact hn)
+      (fun e => hne (h4 e)) h1 h2
+
+
+/-! ### `indexes.insert` when the new index sorts after all others -/
+
+theorem getD_mem {arr : List Nat} {j : Nat} (h : j < arr.length) : arr.getD j 0 ∈ arr := by
+  rw [List.getD_eq_getElem?_getD, List.getElem?_eq_getElem h]; simp
+
+theorem findInsertIndex_last (arr : List Nat) (x : Nat)
+    (h1 : ∀ e ∈ arr, e ≠ x → idxLt x e = false)
+    (h2 : ∀ j, j + 1 < arr.length → arr.getD j 0 ≠ x) :
+    ∀ (fuel lo : Nat), lo ≤ arr.length → arr.length - lo < fuel → (lo = arr.length → x ∉ arr) →
+      (findInsertIndex arr x fuel lo arr.length < arr.length ∧
+        arr.getD (findInsertIndex arr x fuel lo arr.length) 0 = x) ∨
+      (findInsertIndex arr x fuel lo arr.length = arr.length ∧ x ∉ arr) := by
+  intro fuel
+  induction fuel with
+  | zero => intro lo _ h _; omega
+  | succ f ih =>
+    intro lo hlo hfuel hend
+    simp only [findInsertIndex]
+    by_cases hlt : lo < arr.length
+    · rw [if_pos hlt]
+      have hmid : lo + (arr.length - lo + 1) / 2 - 1 < arr.length := by omega
+      have hmid2 : lo ≤ lo + (arr.length - lo + 1) / 2 - 1 := by omega
+      generalize lo + (arr.length - lo + 1) / 2 - 1 = middle at hmid hmid2
+      by_cases heq : arr.getD middle 0 = x
+      · left
+        have : (arr.getD middle 0 == x) = true := by simpa using heq
+        rw [if_pos this]
+        exact ⟨hmid, heq⟩
+      · have hne : ¬ ((arr.getD middle 0 == x) = true) := by simpa using heq
+        rw [if_neg hne]
+        have hlt' := h1 _ (getD_mem hmid) heq
+        unfold idxLt at hlt'
+        have hnext := ih (middle + 1) (by omega) (by omega) (by
+          intro he hm
+          obtain ⟨j, hj, hjx⟩ := List.getElem_of_mem hm
+          have hjd : arr.getD j 0 = x := by
+            rw [List.getD_eq_getElem?_getD, List.getElem?_eq_getElem hj]; simpa using hjx
+          by_cases hj1 : j + 1 < arr.length
+          · exact h2 j hj1 hjd
+          · have : j = middle := by omega
+            subst this; exact heq hjd)
+        by_cases hb : (bitLen x == bitLen (arr.getD middle 0)) = true
+        · rw [if_pos hb] at hlt' ⊢
+          have : ¬ x < arr.getD middle 0 := by simpa using hlt'
+          rw [if_neg this]; exact hnext
+        · rw [if_neg hb] at hlt' ⊢
+          have : ¬ x > arr.getD middle 0 := by simpa using hlt'
+          rw [if_neg this]; exact hnext
+    · rw [if_neg hlt]
+      right
+      exact ⟨rfl, hend (by omega)⟩
+
+theorem insertIdx_spec (arr pre suf : List Nat) (x : Nat) (harr : arr = pre ++ suf) (hsuf : suf.length ≤ 1)
+    (h1 : ∀ e ∈ arr, e ≠ x → idxLt x e = false) (hpre : x ∉ pre) :
+    insertIdx arr x = if x ∈ arr then arr else arr ++ [x] := by
+  have h2 : ∀ j, j + 1 < arr.length → arr.getD j 0 ≠ x := by
+    intro j hj he
+    have hjp : j < pre.length := by rw [harr] at hj; simp at hj; omega
+    apply hpre
+    rw [← he, harr, List.getD_eq_getElem?_getD, List.getElem?_append_left hjp, List.getElem?_eq_getElem hjp]
+    simp
+  have := findInsertIndex_last arr x h1 h2 (arr.length + 1) 0 (by omega) (by omega) (by
+    intro h0
+    have : arr = [] := List.eq_nil_of_length_eq_zero h0.symm
+    rw [this]; simp)
+  unfold insertIdx
+  simp only
+  rcases this with ⟨h3, h4⟩ | ⟨h3, h4⟩
+  · have hmem : x ∈ arr := by rw [← h4]; exact getD_mem h3
+    rw [if_neg (by omega), if_pos hmem]
+    have : ¬ ((arr.getD (findInsertIndex arr x (arr.length + 1) 0 arr.length) 0 != x) = true) := by
+      rw [h4]; simp
+    rw [if_neg this]
+  · rw [if_pos (by omega), if_neg h4]
+
+
+/-! ### indexes of nodes by position -/
+
+/-- the index of the node at position `k` of layer `l` in a tree of height `h` -/
+def nIdx (h l k : Nat) : Nat := 2 ^ (h - l) + k
+
+theorem nIdx_eq_nodeIdx (h l k : Nat) : nIdx h l k = nodeIdx h (k * 2 ^ l) l := by
+  unfold nIdx nodeIdx
+  rw [Nat.mul_div_cancel _ (Nat.pow_pos (by decide))]
+
+theorem pos_lt_of_nonempty {n h l k : Nat} (hn : n ≤ 2 ^ (h - 1)) (hl : l ≤ h - 1) (hk : k * 2 ^ l < n) :
+    k < 2 ^ (h - 1 - l) := by
+  have : k * 2 ^ l < 2 ^ (h - 1 - l) * 2 ^ l := by rw [pow_split hl]; omega
+  exact Nat.lt_of_mul_lt_mul_right this
+
+theorem pow_pred_le {h l : Nat} : 2 ^ (h - 1 - l) ≤ 2 ^ (h - l) := Nat.pow_le_pow_right (by decide) (by omega)
+
+theorem nIdx_log2 {h l k : Nat} (hk : k < 2 ^ (h - l)) : Nat.log2 (nIdx h l k) = h - l := by
+  unfold nIdx
+  apply log2_eq_of
+  · omega
+  · rw [Nat.pow_succ]; omega
+
+theorem bitLen_nIdx {h l k : Nat} (hk : k < 2 ^ (h - l)) : bitLen (nIdx h l k) = h - l + 1 := by
+  have hp : 0 < 2 ^ (h - l) := Nat.pow_pos (by decide)
+  unfold bitLen
+  rw [if_neg (by unfold nIdx; omega), nIdx_log2 hk]
+
+theorem nIdx_inj {h l l' k k' : Nat} (hl : l ≤ h) (hl' : l' ≤ h) (hk : k < 2 ^ (h - l)) (hk' : k' < 2 ^ (h - l'))
+    (e : nIdx h l k = nIdx h l' k') : l = l' ∧ k = k' := by
+  have h1 := nIdx_log2 hk
+  have h2 := nIdx_log2 hk'
+  rw [e, h2] at h1
+  have : l = l' := by omega
+  subst this
+  unfold nIdx at e
+  exact ⟨rfl, by omega⟩
+
+theorem nIdx_half {h l k : Nat} (hl : l + 1 ≤ h) : nIdx h l k / 2 = nIdx h (l + 1) (k / 2) := by
+  unfold nIdx
+  have e : 2 ^ (h - l) = 2 * 2 ^ (h - (l + 1)) := by
+    rw [show h - l = (h - (l + 1)) + 1 by omega, Nat.pow_succ]; omega
+  rw [e]; omega
+
+theorem nIdx_mod2 {h l k : Nat} (hl : l + 1 ≤ h) : nIdx h l k % 2 = k % 2 := by
+  unfold nIdx
+  have e : 2 ^ (h - l) = 2 * 2 ^ (h - (l + 1)) := by
+    rw [show h - l = (h - (l + 1)) + 1 by omega, Nat.pow_succ]; omega
+  rw [e]; omega
+
+theorem nIdx_ne_two {h l k : Nat} (hl : l + 2 ≤ h) : nIdx h l k ≠ 2 := by
+  unfold nIdx
+  have : 2 ^ 2 ≤ 2 ^ (h - l) := Nat.pow_le_pow_right (by decide) (by omega)
+  omega
+
+theorem newLoc_nIdx {h l k : Nat} (hl : l ≤ h) (hk : k < 2 ^ (h - l)) (loc : Loc)
+    (e : newLoc (nIdx h l k) h = some loc) : loc = (l, k) := by
+  rw [nIdx_eq_nodeIdx] at e
+  have hi : k * 2 ^ l < 2 ^ h := by
+    have : k * 2 ^ l < 2 ^ (h - l) * 2 ^ l := Nat.mul_lt_mul_of_pos_right hk (Nat.pow_pos (by decide))
+    rw [pow_split hl] at this; exact this
+  have := newLoc_nodeIdx h (k * 2 ^ l) l hi hl loc e
+  rw [Nat.mul_div_cancel _ (Nat.pow_pos (by decide))] at this
+  exact this
+
+theorem newLoc_nIdx_some {h l k : Nat} (hl : l + 1 ≤ h) (hk : k * 2 ^ l < 2 ^ (h - 1)) (hb : h ≤ 30) :
+    newLoc (nIdx h l k) h = some (l, k) := by
+  rw [nIdx_eq_nodeIdx, newLoc_nodeIdx_some h (k * 2 ^ l) l hk hl hb,
+    Nat.mul_div_cancel _ (Nat.pow_pos (by decide))]
+
+/-- the location at which the block of the node `(l, k)` is stored (found by `getRightSiblingInfo`) -/
+def repLoc (n l k : Nat) : Loc := descend (layerStructure n) (l + 1) k l
+
+theorem repLoc_spec (n l k : Nat) : ∃ l', l' ≤ l ∧ repLoc n l k = (l', k * 2 ^ (l - l')) ∧
+    (k * 2 ^ l < n → proper n l' (k * 2 ^ (l - l'))) := by
+  obtain ⟨l', h1, h2, _, h4, _⟩ := descend_blk (List.replicate n []) (l + 1) l k (by omega)
+  simp only [List.length_replicate] at h2 h4
+  exact ⟨l', h1, h2, h4⟩
+
+theorem repLoc_proper {n l k : Nat} (h : proper n l k) : repLoc n l k = (l, k) := by
+  unfold repLoc
+  simp only [descend]
+  rcases h with ⟨h0, _⟩ | ⟨h1, h2⟩
+  · subst h0; simp
+  · have := (lt_layerStructure_iff n l k h1).2 h2
+    rw [if_neg]
+    simp only [Bool.and_eq_true, decide_eq_true_eq, not_and]
+    intro h3; omega
+
+theorem repLoc_carry {n l m : Nat} (h : ¬ proper n (l + 1) m) : repLoc n (l + 1) m = repLoc n l (m * 2) := by
+  unfold repLoc
+  rw [descend]
+  have : ¬ m < (layerStructure n).getD (l + 1) 0 := by
+    intro hlt
+    exact h (Or.inr ⟨by omega, (lt_layerStructure_iff n (l + 1) m (by omega)).1 hlt⟩)
+  rw [if_pos (by simp only [Bool.and_eq_true, decide_eq_true_eq]; exact ⟨by omega, by omega⟩)]
+  simp
+
+theorem rsi_eq_repLoc {n k l : Nat} (hlt : sibOf k * 2 ^ l < n) :
+    rightSiblingInfo (layerStructure n) k l n = some (repLoc n l (sibOf k)) := by
+  obtain ⟨l', h1, h2, h3⟩ := repLoc_spec n l (sibOf k)
+  unfold rightSiblingInfo
+  rw [sib_eq]
+  show (if (repLoc n l (sibOf k)).2 ≥ n then none else some (repLoc n l (sibOf k))) = _
+  have := proper_lt (h3 hlt)
+  have hp : 0 < 2 ^ l' := Nat.pow_pos (by decide)
+  have : sibOf k * 2 ^ (l - l') < n := by
+    have : sibOf k * 2 ^ (l - l') ≤ sibOf k * 2 ^ (l - l') * 2 ^ l' := Nat.le_mul_of_pos_right _ hp
+    omega
+  rw [h2, if_neg (by simp; omega)]
+
+
+/-! ### one iteration of `calculatePathNodes` -/
+
+/-- the index of a location -/
+def locIdx (h : Nat) (loc : Loc) : Nat := nIdx h loc.1 loc.2
+
+theorem locIndex_repLoc {n h l k sidx : Nat} (hnH : n ≤ 2 ^ (h - 1)) (hl : l + 2 ≤ h) (hk : k * 2 ^ l < n)
+    (e : locIndex (repLoc n l k) h = some sidx) : sidx = locIdx h (repLoc n l k) := by
+  obtain ⟨l', h1, h2, h3⟩ := repLoc_spec n l k
+  rw [h2] at e ⊢
+  have := pos_lt_of_nonempty hnH (show l' ≤ h - 1 by omega) (proper_lt (h3 hk))
+  exact locIndex_eq h l' _ sidx (by omega) this e
+
+theorem locIndex_repLoc_some {n h l k : Nat} (hnH : n ≤ 2 ^ (h - 1)) (hl : l + 2 ≤ h) (hk : k * 2 ^ l < n)
+    (hb : h ≤ 30) : locIndex (repLoc n l k) h = some (locIdx h (repLoc n l k)) := by
+  obtain ⟨l', h1, h2, h3⟩ := repLoc_spec n l k
+  rw [h2]
+  have := pos_lt_of_nonempty hnH (show l' ≤ h - 1 by omega) (proper_lt (h3 hk))
+  exact locIndex_some h l' _ (by omega) this hb
+
+theorem calcLoop_iter (hf : HashFns) (n h : Nat) (hnH : n ≤ 2 ^ (h - 1)) (l k : Nat) (hl : l + 2 ≤ h)
+    (hk : k * 2 ^ l < n) (f : Nat) (W : List Nat) (R C : List (Nat × Bytes)) (sibs : List Bytes) (v : Bytes)
+    (hlook : look R C (nIdx h l k) = some v) :
+    (calcLoop hf (layerStructure n) n h (f + 1) (nIdx h l k :: W) R C sibs =
+      if sibOf k * 2 ^ l < n then
+        match takeSibling R (locIdx h (repLoc n l (sibOf k))) sibs with
+        | none => none
+        | some (sh, sibs') =>
+          if parentConflict R (nIdx h (l + 1) (k / 2)) (if k % 2 = 0 then hf.branch v sh else hf.branch sh v) then none
+          else calcLoop hf (layerStructure n) n h f (insertIdx W (nIdx h (l + 1) (k / 2)))
+            (mapSet R (nIdx h (l + 1) (k / 2)) (if k % 2 = 0 then hf.branch v sh else hf.branch sh v)) C sibs'
+      else calcLoop hf (layerStructure n) n h f (insertIdx W (nIdx h (l + 1) (k / 2))) R
+        (mapSet C (nIdx h (l + 1) (k / 2)) v) sibs) ∨
+    (calcLoop hf (layerStructure n) n h (f + 1) (nIdx h l k :: W) R C sibs = none ∧ 30 < h) := by
+  have hkb := pos_lt_of_nonempty hnH (show l ≤ h - 1 by omega) hk
+  have hkb' : k < 2 ^ (h - l) := Nat.lt_of_lt_of_le hkb pow_pred_le
+  have hne : (nIdx h l k == 2) = false := by simpa using nIdx_ne_two hl
+  simp only [calcLoop, hne, Bool.false_eq_true, if_false, hlook]
+  cases hloc : newLoc (nIdx h l k) h with
+  | none =>
+    right
+    refine ⟨rfl, ?_⟩
+    rcases Nat.lt_or_ge 30 h with hb | hb
+    · exact hb
+    · rw [newLoc_nIdx_some (by omega) (by omega) hb] at hloc; cases hloc
+  | some loc =>
+    have := newLoc_nIdx (by omega) hkb' loc hloc
+    subst this
+    simp only
+    rw [nIdx_half (by omega)]
+    by_cases hlt : sibOf k * 2 ^ l < n
+    · rw [if_pos hlt, rsi_eq_repLoc hlt]
+      simp only
+      cases hsidx : locIndex (repLoc n l (sibOf k)) h with
+      | none =>
+        right
+        refine ⟨rfl, ?_⟩
+        rcases Nat.lt_or_ge 30 h with hb | hb
+        · exact hb
+        · rw [locIndex_repLoc_some hnH hl hlt hb] at hsidx; cases hsidx
+      | some sidx =>
+        left
+        have := locIndex_repLoc hnH hl hlt hsidx
+        subst this
+        simp only
+        cases takeSibling R (locIdx h (repLoc n l (sibOf k))) sibs with
+        | none => rfl
+        | some x =>
+          obtain ⟨sh, sibs'⟩ := x
+          simp only
+          have hm : nIdx h l k % 2 = k % 2 := nIdx_mod2 (by omega)
+          by_cases hev : k % 2 = 0
+          · have : (nIdx h l k % 2 == 0) = true := by simp [hm, hev]
+            simp only [this, if_true, hev]
+          · have : (nIdx h l k % 2 == 0) = false := by simp [hm, hev]
+            simp only [this, Bool.false_eq_true, if_false, hev]
+    · left
+      rw [if_neg hlt, rsi_none _ _ _ (by omega)]
+
+
+/-! ### the invariant of `calculatePathNodes` inside a layer -/
+
+theorem look_mapSet_R_ne (R C : List (Nat × Bytes)) (p key : Nat) (x : Bytes) (h : key ≠ p) :
+    look (mapSet R p x) C key = look R C key := by
+  simp only [look, lookup_mapSet_ne _ _ _ _ h]
+
+theorem look_mapSet_C_ne (R C : List (Nat × Bytes)) (p key : Nat) (x : Bytes) (h : key ≠ p) :
+    look R (mapSet C p x) key = look R C key := by
+  simp only [look, lookup_mapSet_ne _ _ _ _ h]
+
+theorem look_mapSet_R_self (R C : List (Nat × Bytes)) (p : Nat) (x : Bytes) :
+    look (mapSet R p x) C p = some x := by
+  simp [look, lookup_mapSet_self]
+
+theorem look_mapSet_C_self (R C : List (Nat × Bytes)) (p : Nat) (x : Bytes) (h : R.lookup p = none) :
+    look R (mapSet C p x) p = some x := by
+  simp [look, h, lookup_mapSet_self]
+
+/-- `A`: the nodes of layer `l` still to be processed, `B`: the parents found so far -/
+structure CInv (n h l : Nat) (A B : Lay) (R C : List (Nat × Bytes)) : Prop where
+  ascA : A.Pairwise (fun x y => x.1 < y.1)
+  okA : LayOK n l A
+  ascB : B.Pairwise (fun x y => x.1 < y.1)
+  okB : LayOK n (l + 1) B
+  sepBA : ∀ b ∈ B, ∀ a ∈ A, 2 * b.1 + 1 < a.1
+  valA : ∀ e ∈ A, look R C (nIdx h l e.1) = some e.2 ∧ R.lookup (locIdx h (repLoc n l e.1)) = some e.2
+  valB : ∀ e ∈ B, look R C (nIdx h (l + 1) e.1) = some e.2 ∧ R.lookup (locIdx h (repLoc n (l + 1) e.1)) = some e.2
+  keys : ∀ key v, R.lookup key = some v → ∃ l' k', l' ≤ l + 1 ∧ k' * 2 ^ l' < n ∧ key = nIdx h l' k' ∧
+    ((l' ≤ l ∧ ∃ e ∈ A, e.1 = k' / 2 ^ (l - l')) ∨ (∃ e ∈ B, e.1 = k' / 2 ^ (l + 1 - l')))
+
+theorem locIdx_repLoc_ne {n h l k l2 k2 : Nat} (hnH : n ≤ 2 ^ (h - 1)) (hl : l + 1 ≤ h) (hk : k * 2 ^ l < n)
+    (hl2 : l2 ≤ h) (hk2 : k2 < 2 ^ (h - l2)) (hne : l2 = l → k2 ≠ k) (hgt : l ≤ l2) :
+    locIdx h (repLoc n l k) ≠ nIdx h l2 k2 := by
+  obtain ⟨l', h1, h2, h3⟩ := repLoc_spec n l k
+  rw [h2]
+  intro e
+  unfold locIdx at e
+  simp only at e
+  have hb := pos_lt_of_nonempty hnH (show l' ≤ h - 1 by omega) (proper_lt (h3 hk))
+  obtain ⟨e1, e2⟩ := nIdx_inj (by omega) hl2 (Nat.lt_of_lt_of_le hb pow_pred_le) hk2 e
+  have : l' = l := by omega
+  subst this
+  simp at e2
+  exact hne e1.symm e2.symm
+
+theorem CInv_advance {n h l : Nat} (hnH : n ≤ 2 ^ (h - 1)) (hl : l + 2 ≤ h) {pre rest B : Lay}
+    {R C R' C' : List (Nat × Bytes)} {m : Nat} {pv : Bytes}
+    (hinv : CInv n h l (pre ++ rest) B R C) (hne : pre ≠ []) (hpre : ∀ e ∈ pre, e.1 / 2 = m)
+    (hsep : ∀ a ∈ rest, 2 * m + 1 < a.1)
+    (P1 : ∀ key, key ≠ nIdx h (l + 1) m → R'.lookup key = R.lookup key ∧ look R' C' key = look R C key)
+    (P2 : look R' C' (nIdx h (l + 1) m) = some pv ∧ R'.lookup (locIdx h (repLoc n (l + 1) m)) = some pv) :
+    CInv n h l rest (B ++ [(m, pv)]) R' C' := by
+  obtain ⟨e0, he0⟩ := List.exists_mem_of_ne_nil pre hne
+  have he0A : e0 ∈ pre ++ rest := by simp [he0]
+  have hm0 := hpre e0 he0
+  have hmok : m * 2 ^ (l + 1) < n := by rw [← hm0]; exact half_nonempty (hinv.okA e0 he0A)
+  have hmb := pos_lt_of_nonempty hnH (show l + 1 ≤ h - 1 by omega) hmok
+  have hmb' : m < 2 ^ (h - (l + 1)) := Nat.lt_of_lt_of_le hmb pow_pred_le
+  have hBlt : ∀ b ∈ B, b.1 < m := by
+    intro b hb
+    have := hinv.sepBA b hb e0 he0A
+    omega
+  refine ⟨(List.pairwise_append.mp hinv.ascA).2.1, fun e he => hinv.okA e (by simp [he]), ?_, ?_, ?_, ?_, ?_, ?_⟩
+  · -- ascB
+    rw [List.pairwise_append]
+    refine ⟨hinv.ascB, by simp, ?_⟩
+    intro b hb c hc
+    simp only [List.mem_singleton] at hc
+    subst hc
+    exact hBlt b hb
+  · -- okB
+    intro e he
+    simp only [List.mem_append, List.mem_singleton] at he
+    rcases he with he | rfl
+    · exact hinv.okB e he
+    · exact hmok
+  · -- sepBA
+    intro b hb a ha
+    simp only [List.mem_append, List.mem_singleton] at hb
+    rcases hb with hb | rfl
+    · exact hinv.sepBA b hb a (by simp [ha])
+    · exact hsep a ha
+  · -- valA
+    intro e he
+    have heA : e ∈ pre ++ rest := by simp [he]
+    have hek := hinv.okA e heA
+    have hekb := pos_lt_of_nonempty hnH (show l ≤ h - 1 by omega) hek
+    obtain ⟨v1, v2⟩ := hinv.valA e heA
+    have hk1 : nIdx h l e.1 ≠ nIdx h (l + 1) m := by
+      intro e'
+      have := (nIdx_inj (by omega) (by omega) (Nat.lt_of_lt_of_le hekb pow_pred_le) hmb' e').1
+      omega
+    have hk2 := locIdx_repLoc_ne hnH (show l + 1 ≤ h by omega) hek (show l + 1 ≤ h by omega) hmb'
+      (by omega) (by omega)
+    exact ⟨by rw [(P1 _ hk1).2]; exact v1, by rw [(P1 _ hk2).1]; exact v2⟩
+  · -- valB
+    intro e he
+    simp only [List.mem_append, List.mem_singleton] at he
+    rcases he with he | rfl
+    · have hek := hinv.okB e he
+      have hekb := pos_lt_of_nonempty hnH (show l + 1 ≤ h - 1 by omega) hek
+      obtain ⟨v1, v2⟩ := hinv.valB e he
+      have hlt := hBlt e he
+      have hk1 : nIdx h (l + 1) e.1 ≠ nIdx h (l + 1) m := by
+        intro e'
+        have := (nIdx_inj (by omega) (by omega) (Nat.lt_of_lt_of_le hekb pow_pred_le) hmb' e').2
+        omega
+      have hk2 := locIdx_repLoc_ne hnH (show l + 1 + 1 ≤ h by omega) hek (show l + 1 ≤ h by omega) hmb'
+        (by intro _; omega) (by omega)
+      exact ⟨by rw [(P1 _ hk1).2]; exact v1, by rw [(P1 _ hk2).1]; exact v2⟩
+    · exact P2
+  · -- keys
+    intro key v hv
+    by_cases hkey : key = nIdx h (l + 1) m
+    · refine ⟨l + 1, m, Nat.le_refl _, hmok, hkey, Or.inr ⟨(m, pv), by simp, ?_⟩⟩
+      simp
+    · rw [(P1 key hkey).1] at hv
+      obtain ⟨l', k', h1, h2, h3, h4⟩ := hinv.keys key v hv
+      refine ⟨l', k', h1, h2, h3, ?_⟩
+      rcases h4 with ⟨h5, e, he, hek⟩ | ⟨e, he, hek⟩
+      · simp only [List.mem_append] at he
+        rcases he with he | he
+        · right
+          refine ⟨(m, pv), by simp, ?_⟩
+          simp only
+          rw [← hpre e he, hek, Nat.div_div_eq_div_mul, ← Nat.pow_succ]
+          congr 2; omega
+        · left; exact ⟨h5, e, he, hek⟩
+      · right; exact ⟨e, by simp [he], hek⟩
+
+
+/-- the worklist: the rest of layer `l`, then the parents found so far -/
+def wl (h l : Nat) (A B : Lay) : List Nat :=
+  A.map (fun e => nIdx h l e.1) ++ B.map (fun e => nIdx h (l + 1) e.1)
+
+theorem wl_snoc (h l : Nat) (A B : Lay) (m : Nat) (pv : Bytes) :
+    wl h l A (B ++ [(m, pv)]) = wl h l A B ++ [nIdx h (l + 1) m] := by
+  simp [wl]
+
+theorem idxLt_parent_false {h l m : Nat} (hl : l + 1 ≤ h) (hm : m < 2 ^ (h - (l + 1))) (A B : Lay)
+    (hA : ∀ a ∈ A, a.1 < 2 ^ (h - l)) (hB : ∀ b ∈ B, b.1 < m) :
+    ∀ e ∈ wl h l A B, e ≠ nIdx h (l + 1) m ∧ idxLt (nIdx h (l + 1) m) e = false := by
+  intro e he
+  have e2 : 2 ^ (h - l) = 2 * 2 ^ (h - (l + 1)) := by
+    rw [show h - l = (h - (l + 1)) + 1 by omega, Nat.pow_succ]; omega
+  simp only [wl, List.mem_append, List.mem_map] at he
+  rcases he with ⟨a, ha, rfl⟩ | ⟨b, hb, rfl⟩
+  · have hab := hA a ha
+    have hbl1 := bitLen_nIdx hab
+    have hbl2 := bitLen_nIdx hm
+    constructor
+    · unfold nIdx; omega
+    · unfold idxLt
+      rw [hbl1, hbl2]
+      have : (h - (l + 1) + 1 == h - l + 1) = false := by simp; omega
+      rw [this]
+      simp only [Bool.false_eq_true, if_false, decide_eq_false_iff_not]
+      unfold nIdx; omega
+  · have hbm := hB b hb
+    have hbl1 := bitLen_nIdx (show b.1 < 2 ^ (h - (l + 1)) by omega)
+    have hbl2 := bitLen_nIdx hm
+    constructor
+    · unfold nIdx; omega
+    · unfold idxLt
+      rw [hbl1, hbl2]
+      simp only [beq_self_eq_true, if_true, decide_eq_false_iff_not]
+      unfold nIdx; omega
+
+theorem insertIdx_wl_fresh {h l m : Nat} (hl : l + 1 ≤ h) (hm : m < 2 ^ (h - (l + 1))) (A B : Lay)
+    (hA : ∀ a ∈ A, a.1 < 2 ^ (h - l)) (hB : ∀ b ∈ B, b.1 < m) (pv : Bytes) :
+    insertIdx (wl h l A B) (nIdx h (l + 1) m) = wl h l A (B ++ [(m, pv)]) := by
+  have hall := idxLt_parent_false hl hm A B hA hB
+  have hnot : nIdx h (l + 1) m ∉ wl h l A B := fun hmem => (hall _ hmem).1 rfl
+  rw [insertIdx_spec (wl h l A B) (wl h l A B) [] _ (by simp) (by simp) (fun e he _ => (hall e he).2) hnot,
+    if_neg hnot, wl_snoc]
+
+theorem insertIdx_wl_last {h l m : Nat} (hl : l + 1 ≤ h) (hm : m < 2 ^ (h - (l + 1))) (A B : Lay)
+    (hA : ∀ a ∈ A, a.1 < 2 ^ (h - l)) (hB : ∀ b ∈ B, b.1 < m) :
+    insertIdx (wl h l A B ++ [nIdx h (l + 1) m]) (nIdx h (l + 1) m) = wl h l A B ++ [nIdx h (l + 1) m] := by
+  have hall := idxLt_parent_false hl hm A B hA hB
+  have hnot : nIdx h (l + 1) m ∉ wl h l A B := fun hmem => (hall _ hmem).1 rfl
+  rw [insertIdx_spec _ (wl h l A B) [nIdx h (l + 1) m] _ rfl (by simp) (by
+      intro e he hne
+      simp only [List.mem_append, List.mem_singleton] at he
+      rcases he with he | he
+      · exact (hall e he).2
+      · exact absurd he hne) hnot,
+    if_pos (by simp)]
+
+theorem mapSet_idem (m : List (Nat × Bytes)) (k : Nat) (v : Bytes) : mapSet (mapSet m k v) k v = mapSet m k v := by
+  simp [mapSet, List.filter_filter]
+
+
+theorem mul_pow_div_succ (s a b : Nat) (hab : b = a + 1) : s * 2 ^ a / 2 ^ b = s / 2 := by
+  subst hab
+  rw [Nat.pow_succ, ← Nat.div_div_eq_div_mul, Nat.mul_div_cancel _ (Nat.pow_pos (by decide))]
+
+/-- common facts about the head of the layer -/
+theorem CInv_head_facts {n h l : Nat} (hnH : n ≤ 2 ^ (h - 1)) (hl : l + 2 ≤ h) {k : Nat} {v : Bytes}
+    {rest B : Lay} {R C : List (Nat × Bytes)} (hinv : CInv n h l ((k, v) :: rest) B R C) :
+    k * 2 ^ l < n ∧ (∀ b ∈ B, b.1 < k / 2) ∧ k / 2 < 2 ^ (h - (l + 1)) ∧ (∀ a ∈ rest, a.1 < 2 ^ (h - l)) ∧
+    R.lookup (nIdx h (l + 1) (k / 2)) = none ∧
+    (∀ sib, sib * 2 ^ l < n → sib / 2 = k / 2 → sib ≠ k → (∀ a ∈ rest, a.1 ≠ sib) →
+      R.lookup (locIdx h (repLoc n l sib)) = none) := by
+  have hk := hinv.okA (k, v) (by simp)
+  have hBlt : ∀ b ∈ B, b.1 < k / 2 := by
+    intro b hb
+    have := hinv.sepBA b hb (k, v) (by simp)
+    simp only at this; omega
+  have hmok : k / 2 * 2 ^ (l + 1) < n := half_nonempty hk
+  have hmb := pos_lt_of_nonempty hnH (show l + 1 ≤ h - 1 by omega) hmok
+  have hmb' : k / 2 < 2 ^ (h - (l + 1)) := Nat.lt_of_lt_of_le hmb pow_pred_le
+  refine ⟨hk, hBlt, hmb', ?_, ?_, ?_⟩
+  · intro a ha
+    have := pos_lt_of_nonempty hnH (show l ≤ h - 1 by omega) (hinv.okA a (by simp [ha]))
+    exact Nat.lt_of_lt_of_le this pow_pred_le
+  · apply lookup_none_of_forall
+    intro v' hv'
+    obtain ⟨l', k', h1, h2, h3, h4⟩ := hinv.keys _ v' hv'
+    have hk'b := pos_lt_of_nonempty hnH (show l' ≤ h - 1 by omega) h2
+    obtain ⟨e1, e2⟩ := nIdx_inj (by omega) (by omega) hmb' (Nat.lt_of_lt_of_le hk'b pow_pred_le) h3
+    subst e1; subst e2
+    rcases h4 with ⟨h5, _⟩ | ⟨b, hb, hbe⟩
+    · omega
+    · have := hBlt b hb
+      simp at hbe; omega
+  · intro sib hsib hhalf hne hnot
+    apply lookup_none_of_forall
+    intro v' hv'
+    obtain ⟨l', k', h1, h2, h3, h4⟩ := hinv.keys _ v' hv'
+    obtain ⟨l2, g1, g2, g3⟩ := repLoc_spec n l sib
+    rw [g2] at h3
+    unfold locIdx at h3
+    simp only at h3
+    have hk'b := pos_lt_of_nonempty hnH (show l' ≤ h - 1 by omega) h2
+    have hsb := pos_lt_of_nonempty hnH (show l2 ≤ h - 1 by omega) (proper_lt (g3 hsib))
+    obtain ⟨e1, e2⟩ := nIdx_inj (by omega) (by omega) (Nat.lt_of_lt_of_le hsb pow_pred_le)
+      (Nat.lt_of_lt_of_le hk'b pow_pred_le) h3
+    subst e1; subst e2
+    rcases h4 with ⟨_, e, he, hek⟩ | ⟨b, hb, hbe⟩
+    · rw [Nat.mul_div_cancel _ (Nat.pow_pos (by decide))] at hek
+      simp only [List.mem_cons] at he
+      rcases he with rfl | he
+      · exact hne hek.symm
+      · exact hnot e he hek
+    · rw [mul_pow_div_succ _ _ _ (by omega), hhalf] at hbe
+      have := hBlt b hb
+      omega
+
+/-- one node whose sibling is not in the layer: one iteration -/
+theorem calc_single_step (hf : HashFns) (n h : Nat) (hnH : n ≤ 2 ^ (h - 1)) (l : Nat) (hl : l + 2 ≤ h)
+    (k : Nat) (v : Bytes) (rest B : Lay) (R C : List (Nat × Bytes)) (sibs : List Bytes) (f : Nat)
+    (hinv : CInv n h l ((k, v) :: rest) B R C) (hsep : ∀ a ∈ rest, 2 * (k / 2) + 1 < a.1) :
+    (match stepOne hf n l k v sibs with
+      | none => calcLoop hf (layerStructure n) n h (f + 1) (wl h l ((k, v) :: rest) B) R C sibs = none
+      | some (pv, ss) => ∃ R' C', CInv n h l rest (B ++ [(k / 2, pv)]) R' C' ∧
+          calcLoop hf (layerStructure n) n h (f + 1) (wl h l ((k, v) :: rest) B) R C sibs
+            = calcLoop hf (layerStructure n) n h f (wl h l rest (B ++ [(k / 2, pv)])) R' C' ss) ∨
+    (calcLoop hf (layerStructure n) n h (f + 1) (wl h l ((k, v) :: rest) B) R C sibs = none ∧ 30 < h) := by
+  obtain ⟨hk, hBlt, hmb', hAb, hfresh, hsnone⟩ := CInv_head_facts hnH hl hinv
+  obtain ⟨va1, va2⟩ := hinv.valA (k, v) (by simp)
+  have hwl : wl h l ((k, v) :: rest) B = nIdx h l k :: wl h l rest B := by simp [wl]
+  rw [hwl]
+  rcases calcLoop_iter hf n h hnH l k hl hk f (wl h l rest B) R C sibs v va1 with hiter | hfail
+  swap
+  · right; exact hfail
+  left
+  rw [hiter]
+  have hadv : ∀ (R' C' : List (Nat × Bytes)) (pv : Bytes),
+      (∀ key, key ≠ nIdx h (l + 1) (k / 2) → R'.lookup key = R.lookup key ∧ look R' C' key = look R C key) →
+      (look R' C' (nIdx h (l + 1) (k / 2)) = some pv ∧ R'.lookup (locIdx h (repLoc n (l + 1) (k / 2))) = some pv) →
+      CInv n h l rest (B ++ [(k / 2, pv)]) R' C' := by
+    intro R' C' pv P1 P2
+    exact CInv_advance hnH hl (pre := [(k, v)]) (by simpa using hinv) (by simp) (by simp) hsep P1 P2
+  unfold stepOne
+  by_cases hlt : sibOf k * 2 ^ l < n
+  · rw [if_pos hlt, if_pos hlt]
+    -- the sibling is not in the layer
+    have hsn := hsnone (sibOf k) hlt (sibOf_div k) (sibOf_ne k) (by
+      intro a ha he
+      have h1 := hsep a ha
+      have h2 := (List.pairwise_cons.mp hinv.ascA).1 a ha
+      simp only at h2
+      rw [he] at h1 h2
+      unfold sibOf at h1 h2
+      split at h1 <;> omega)
+    have hproper : proper n (l + 1) (k / 2) := by
+      right
+      refine ⟨by omega, ?_⟩
+      simp only [Nat.add_sub_cancel]
+      have : (2 * (k / 2) + 1) ≤ max k (sibOf k) := by unfold sibOf; split <;> omega
+      have h2 : (2 * (k / 2) + 1) * 2 ^ l ≤ max k (sibOf k) * 2 ^ l := Nat.mul_le_mul_right _ this
+      rcases Nat.le_total k (sibOf k) with h3 | h3
+      · rw [Nat.max_eq_right h3] at h2; omega
+      · rw [Nat.max_eq_left h3] at h2; omega
+    cases sibs with
+    | nil => simp [takeSibling, hsn]
+    | cons s ss =>
+      simp only [takeSibling, hsn, parentConflict, hfresh, Bool.false_eq_true, if_false]
+      refine ⟨mapSet R (nIdx h (l + 1) (k / 2)) (if k % 2 = 0 then hf.branch v s else hf.branch s v), C,
+        hadv _ C _ ?_ ?_, ?_⟩
+      · intro key hkey
+        exact ⟨lookup_mapSet_ne _ _ _ _ hkey, look_mapSet_R_ne _ _ _ _ _ hkey⟩
+      · refine ⟨look_mapSet_R_self _ _ _ _, ?_⟩
+        rw [repLoc_proper hproper]
+        exact lookup_mapSet_self _ _ _
+      · rw [insertIdx_wl_fresh (by omega) hmb' rest B hAb hBlt]
+  · rw [if_neg hlt, if_neg hlt]
+    have hev : k % 2 = 0 := by
+      rcases Nat.mod_two_eq_zero_or_one k with h0 | h1
+      · exact h0
+      · exfalso
+        have : sibOf k * 2 ^ l ≤ k * 2 ^ l := Nat.mul_le_mul_right _ (by unfold sibOf; split <;> omega)
+        omega
+    have hnp : ¬ proper n (l + 1) (k / 2) := by
+      intro hp
+      rcases hp with ⟨h0, _⟩ | ⟨_, h2⟩
+      · omega
+      · simp only [Nat.add_sub_cancel] at h2
+        have : sibOf k = 2 * (k / 2) + 1 := by unfold sibOf; rw [if_pos hev]; omega
+        rw [this] at hlt; omega
+    simp only
+    refine ⟨R, mapSet C (nIdx h (l + 1) (k / 2)) v, hadv R _ _ ?_ ?_, ?_⟩
+    · intro key hkey
+      exact ⟨rfl, look_mapSet_C_ne _ _ _ _ _ hkey⟩
+    · refine ⟨look_mapSet_C_self _ _ _ _ hfresh, ?_⟩
+      rw [repLoc_carry hnp, show k / 2 * 2 = k by omega]
+      exact va2
+    · rw [insertIdx_wl_fresh (by omega) hmb' rest B hAb hBlt]
+
+
+/-- two sibling nodes of the layer: two iterations, the second recomputes the same parent -/
+theorem calc_pair_step (hf : HashFns) (n h : Nat) (hnH : n ≤ 2 ^ (h - 1)) (l : Nat) (hl : l + 2 ≤ h)
+    (k : Nat) (v w : Bytes) (rest B : Lay) (R C : List (Nat × Bytes)) (sibs : List Bytes) (f : Nat)
+    (hinv : CInv n h l ((k, v) :: (k + 1, w) :: rest) B R C) (hev : k % 2 = 0) :
+    (∃ R' C', CInv n h l rest (B ++ [(k / 2, hf.branch v w)]) R' C' ∧
+        calcLoop hf (layerStructure n) n h (f + 1 + 1) (wl h l ((k, v) :: (k + 1, w) :: rest) B) R C sibs
+          = calcLoop hf (layerStructure n) n h f (wl h l rest (B ++ [(k / 2, hf.branch v w)])) R' C' sibs) ∨
+    (calcLoop hf (layerStructure n) n h (f + 1 + 1) (wl h l ((k, v) :: (k + 1, w) :: rest) B) R C sibs = none
+      ∧ 30 < h) := by
+  obtain ⟨hk, hBlt, hmb', hAb, hfresh, _⟩ := CInv_head_facts hnH hl hinv
+  obtain ⟨va1, va2⟩ := hinv.valA (k, v) (by simp)
+  obtain ⟨vb1, vb2⟩ := hinv.valA (k + 1, w) (by simp)
+  simp only at va1 va2 vb1 vb2
+  have hk1 : (k + 1) * 2 ^ l < n := hinv.okA (k + 1, w) (by simp)
+  have hk1b := Nat.lt_of_lt_of_le (pos_lt_of_nonempty hnH (show l ≤ h - 1 by omega) hk1) (pow_pred_le (h := h) (l := l))
+  have hs0 : sibOf k = k + 1 := by unfold sibOf; rw [if_pos hev]
+  have hs1 : sibOf (k + 1) = k := by unfold sibOf; rw [if_neg (by omega)]; omega
+  have hhalf : (k + 1) / 2 = k / 2 := by omega
+  have hwl : wl h l ((k, v) :: (k + 1, w) :: rest) B = nIdx h l k :: wl h l ((k + 1, w) :: rest) B := by simp [wl]
+  have hwl2 : ∀ B', wl h l ((k + 1, w) :: rest) B' = nIdx h l (k + 1) :: wl h l rest B' := by intro B'; simp [wl]
+  have hAb' : ∀ a ∈ rest, a.1 < 2 ^ (h - l) := fun a ha => hAb a (by simp [ha])
+  rw [hwl]
+  -- first iteration
+  rcases calcLoop_iter hf n h hnH l k hl hk (f + 1) (wl h l ((k + 1, w) :: rest) B) R C sibs v va1 with hiter | hfail
+  swap
+  · right; exact hfail
+  rw [hiter, hs0, if_pos hk1]
+  simp only [takeSibling, vb2, parentConflict, hfresh, if_pos hev, Bool.false_eq_true, if_false]
+  rw [insertIdx_wl_fresh (by omega) hmb' _ B hAb hBlt (hf.branch v w), hwl2, wl_snoc]
+  -- second iteration
+  have hkey1 : nIdx h l (k + 1) ≠ nIdx h (l + 1) (k / 2) := by
+    intro e
+    have := (nIdx_inj (by omega) (by omega) hk1b hmb' e).1
+    omega
+  have hkey2 : locIdx h (repLoc n l k) ≠ nIdx h (l + 1) (k / 2) :=
+    locIdx_repLoc_ne hnH (by omega) hk (by omega) hmb' (by omega) (by omega)
+  have hlook2 : look (mapSet R (nIdx h (l + 1) (k / 2)) (hf.branch v w)) C (nIdx h l (k + 1)) = some w := by
+    rw [look_mapSet_R_ne _ _ _ _ _ hkey1]; exact vb1
+  rcases calcLoop_iter hf n h hnH l (k + 1) hl hk1 f (wl h l rest B ++ [nIdx h (l + 1) (k / 2)])
+    (mapSet R (nIdx h (l + 1) (k / 2)) (hf.branch v w)) C sibs w hlook2 with hiter2 | hfail2
+  swap
+  · right; exact hfail2
+  left
+  rw [hiter2, hs1, if_pos hk, hhalf]
+  have hl2 : (mapSet R (nIdx h (l + 1) (k / 2)) (hf.branch v w)).lookup (locIdx h (repLoc n l k)) = some v := by
+    rw [lookup_mapSet_ne _ _ _ _ hkey2]; exact va2
+  simp only [takeSibling, hl2, parentConflict, lookup_mapSet_self, if_neg (show ¬ (k + 1) % 2 = 0 by omega),
+    bne_self_eq_false, Bool.false_eq_true, if_false]
+  rw [insertIdx_wl_last (by omega) hmb' rest B hAb' hBlt, mapSet_idem, ← wl_snoc h l rest B (k / 2) (hf.branch v w)]
+  refine ⟨_, C, ?_, rfl⟩
+  have hproper : proper n (l + 1) (k / 2) := by
+    right
+    refine ⟨by omega, ?_⟩
+    simp only [Nat.add_sub_cancel]
+    rw [show 2 * (k / 2) + 1 = k + 1 by omega]; exact hk1
+  refine CInv_advance hnH hl (pre := [(k, v), (k + 1, w)]) (by simpa using hinv) (by simp) ?_ ?_ ?_ ?_
+  · intro e he
+    simp only [List.mem_cons, List.not_mem_nil, or_false] at he
+    rcases he with rfl | rfl
+    · rfl
+    · exact hhalf
+  · intro a ha
+    have := (List.pairwise_cons.mp (List.pairwise_cons.mp hinv.ascA).2).1 a ha
+    simp only at this; omega
+  · intro key hkey
+    exact ⟨lookup_mapSet_ne _ _ _ _ hkey, look_mapSet_R_ne _ _ _ _ _ hkey⟩
+  · refine ⟨look_mapSet_R_self _ _ _ _, ?_⟩
+    rw [repLoc_proper hproper]
+    exact lookup_mapSet_self _ _ _
+
+
+/-- a whole layer of `calculatePathNodes` follows `layerStep` -/
+theorem calcLayer (hf : HashFns) (n h : Nat) (hnH : n ≤ 2 ^ (h - 1)) (l : Nat) (hl : l + 2 ≤ h) :
+    ∀ (m : Nat) (A B : Lay) (R C : List (Nat × Bytes)) (sibs : List Bytes) (f : Nat),
+      A.length = m → CInv n h l A B R C → m ≤ f →
+      (match layerStep hf n l A sibs with
+        | none => calcLoop hf (layerStructure n) n h f (wl h l A B) R C sibs = none
+        | some (P, s') => ∃ R' C', CInv n h l [] (B ++ P) R' C' ∧
+            calcLoop hf (layerStructure n) n h f (wl h l A B) R C sibs
+              = calcLoop hf (layerStructure n) n h (f - m) (wl h l [] (B ++ P)) R' C' s') ∨
+      (calcLoop hf (layerStructure n) n h f (wl h l A B) R C sibs = none ∧ 30 < h) := by
+  intro m
+  induction m using Nat.strongRecOn with
+  | _ m ih =>
+    intro A B R C sibs f hm hinv hf'
+    match A, hm with
+    | [], hm =>
+      left
+      simp only [layerStep]
+      simp only [List.length_nil] at hm
+      subst hm
+      exact ⟨R, C, by simpa using hinv, by simp⟩
+    | (k, v) :: rest, hm =>
+      simp only [List.length_cons] at hm
+      by_cases hp : ∃ w rest', rest = (k + 1, w) :: rest' ∧ k % 2 = 0
+      · obtain ⟨w, rest', rfl, hev⟩ := hp
+        simp only [List.length_cons] at hm
+        obtain ⟨f', rfl⟩ : ∃ f', f = f' + 1 + 1 := ⟨f - 2, by omega⟩
+        rw [layerStep_pair hf n l k v w rest' sibs hev]
+        rcases calc_pair_step hf n h hnH l hl k v w rest' B R C sibs f' hinv hev with ⟨R1, C1, hinv1, heq⟩ | hfail
+        swap
+        · right; exact hfail
+        rw [heq]
+        have := ih rest'.length (by omega) rest' _ R1 C1 sibs f' rfl hinv1 (by omega)
+        rcases this with hthis | hfail
+        swap
+        · right; exact hfail
+        left
+        cases hr : layerStep hf n l rest' sibs with
+        | none => rw [hr] at hthis; exact hthis
+        | some x =>
+          obtain ⟨P, s'⟩ := x
+          rw [hr] at hthis
+          simp only at hthis ⊢
+          obtain ⟨R', C', hinv', heq'⟩ := hthis
+          refine ⟨R', C', by simpa using hinv', ?_⟩
+          rw [heq', show f' + 1 + 1 - m = f' - rest'.length by omega]
+          simp
+      · have hns : ∀ k' w rest', rest = (k', w) :: rest' → ¬ (k % 2 = 0 ∧ k' = k + 1) := by
+          intro k' w rest' e hc
+          exact hp ⟨w, rest', by rw [e, hc.2], hc.1⟩
+        obtain ⟨f', rfl⟩ : ∃ f', f = f' + 1 := ⟨f - 1, by omega⟩
+        rw [layerStep_single hf n l k v rest sibs hns]
+        have hsep : ∀ a ∈ rest, 2 * (k / 2) + 1 < a.1 := by
+          intro a ha
+          have hasc := List.pairwise_cons.mp hinv.ascA
+          have h1 := hasc.1 a ha
+          simp only at h1
+          cases rest with
+          | nil => cases ha
+          | cons b r =>
+            have hnot := hns b.1 b.2 r rfl
+            have hb := hasc.1 b (by simp)
+            simp only at hb
+            simp only [List.mem_cons] at ha
+            rcases ha with rfl | ha
+            · omega
+            · have := (List.pairwise_cons.mp hasc.2).1 a ha
+              omega
+        rcases calc_single_step hf n h hnH l hl k v rest B R C sibs f' hinv hsep with hstep | hfail
+        swap
+        · right; exact hfail
+        cases ho : stepOne hf n l k v sibs with
+        | none => rw [ho] at hstep; left; exact hstep
+        | some y =>
+          obtain ⟨pv, ss⟩ := y
+          rw [ho] at hstep
+          simp only at hstep ⊢
+          obtain ⟨R1, C1, hinv1, heq⟩ := hstep
+          rw [heq]
+          have := ih rest.length (by omega) rest _ R1 C1 ss f' rfl hinv1 (by omega)
+          rcases this with hthis | hfail
+          swap
+          · right; exact hfail
+          left
+          cases hr : layerStep hf n l rest ss with
+          | none => rw [hr] at hthis; exact hthis
+          | some x =>
+            obtain ⟨P, s'⟩ := x
+            rw [hr] at hthis
+            simp only at hthis ⊢
+            obtain ⟨R', C', hinv', heq'⟩ := hthis
+            refine ⟨R', C', by simpa using hinv', ?_⟩
+            rw [heq', show f' + 1 - m = f' - rest.length by omega]
+            simp
+
+
+theorem CInv_next {n h l : Nat} {B : Lay} {R C : List (Nat × Bytes)} (hinv : CInv n h l [] B R C) :
+    CInv n h (l + 1) B [] R C := by
+  refine ⟨hinv.ascB, hinv.okB, List.Pairwise.nil, (fun e he => by cases he), (fun b hb => by cases hb),
+    hinv.valB, (fun e he => by cases he), ?_⟩
+  intro key v hv
+  obtain ⟨l', k', h1, h2, h3, h4⟩ := hinv.keys key v hv
+  refine ⟨l', k', by omega, h2, h3, ?_⟩
+  rcases h4 with ⟨_, e, he, _⟩ | ⟨e, he, hek⟩
+  · cases he
+  · left; exact ⟨h1, e, he, hek⟩
+
+theorem layerStep_nonempty (hf : HashFns) (n l : Nat) (A : Lay) (sibs : List Bytes) (P : Lay) (s : List Bytes)
+    (hne : A ≠ []) (hs : layerStep hf n l A sibs = some (P, s)) : P ≠ [] := by
+  match A, hne with
+  | (k, v) :: rest, _ =>
+    by_cases hp : ∃ w rest', rest = (k + 1, w) :: rest' ∧ k % 2 = 0
+    · obtain ⟨w, rest', rfl, hev⟩ := hp
+      rw [layerStep_pair hf n l k v w rest' sibs hev] at hs
+      cases hr : layerStep hf n l rest' sibs with
+      | none => rw [hr] at hs; cases hs
+      | some x =>
+        obtain ⟨P', s'⟩ := x
+        rw [hr] at hs
+        simp only [Option.some.injEq, Prod.mk.injEq] at hs
+        rw [← hs.1]; simp
+    · rw [layerStep_single hf n l k v rest sibs (by
+        intro k' w rest' e hc
+        exact hp ⟨w, rest', by rw [e, hc.2], hc.1⟩)] at hs
+      cases ho : stepOne hf n l k v sibs with
+      | none => rw [ho] at hs; cases hs
+      | some y =>
+        obtain ⟨pv, ss⟩ := y
+        rw [ho] at hs
+        simp only at hs
+        cases hr : layerStep hf n l rest ss with
+        | none => rw [hr] at hs; cases hs
+        | some x =>
+          obtain ⟨P', s'⟩ := x
+          rw [hr] at hs
+          simp only [Option.some.injEq, Prod.mk.injEq] at hs
+          rw [← hs.1]; simp
+
+/-- `calculatePathNodes` from a layer on computes what the specification computes -/
+theorem calcLoop_spec (hf : HashFns) (n h : Nat) (hnH : n ≤ 2 ^ (h - 1)) (hh : 1 ≤ h)
+    (htop : 2 ≤ h → 2 ^ (h - 2) < n) :
+    ∀ (d l : Nat) (A : Lay) (R C : List (Nat × Bytes)) (sibs : List Bytes) (f : Nat),
+      l + d = h - 1 → A ≠ [] → CInv n h l A [] R C → d * A.length + 1 ≤ f →
+      (match calcSpec hf n d l A sibs with
+        | none => calcLoop hf (layerStructure n) n h f (wl h l A []) R C sibs = none
+        | some r => ∃ res, calcLoop hf (layerStructure n) n h f (wl h l A []) R C sibs = some res ∧
+            res.lookup 2 = some r) ∨
+      (calcLoop hf (layerStructure n) n h f (wl h l A []) R C sibs = none ∧ 30 < h) := by
+  intro d
+  induction d with
+  | zero =>
+    intro l A R C sibs f hld hne hinv hf'
+    left
+    have hl : l = h - 1 := by omega
+    subst hl
+    have hp : 0 < 2 ^ (h - 1) := Nat.pow_pos (by decide)
+    have hzero : ∀ e ∈ A, e.1 = 0 := by
+      intro e he
+      have := hinv.okA e he
+      rcases Nat.eq_zero_or_pos e.1 with h0 | h0
+      · exact h0
+      · have : 2 ^ (h - 1) ≤ e.1 * 2 ^ (h - 1) := Nat.le_mul_of_pos_left _ h0
+        omega
+    match A, hne with
+    | [(k, r)], _ =>
+      have hk0 := hzero (k, r) (by simp)
+      simp only at hk0
+      subst hk0
+      obtain ⟨f', rfl⟩ : ∃ f', f = f' + 1 := ⟨f - 1, by omega⟩
+      simp only [calcSpec]
+      have hidx : nIdx h (h - 1) 0 = 2 := by
+        unfold nIdx; rw [show h - (h - 1) = 1 by omega]; rfl
+      have hprop : proper n (h - 1) 0 := by
+        by_cases h1 : h = 1
+        · left; subst h1; exact ⟨rfl, by have := hinv.okA (0, r) (by simp); omega⟩
+        · right
+          refine ⟨by omega, ?_⟩
+          have := htop (by omega)
+          rw [show h - 1 - 1 = h - 2 by omega]; omega
+      have hv := (hinv.valA (0, r) (by simp)).2
+      rw [repLoc_proper hprop] at hv
+      simp only [locIdx, hidx] at hv
+      refine ⟨R, ?_, hv⟩
+      simp [wl, hidx, calcLoop]
+    | e1 :: e2 :: rest, _ =>
+      exfalso
+      have h1 := hzero e1 (by simp)
+      have h2 := hzero e2 (by simp)
+      have := (List.pairwise_cons.mp hinv.ascA).1 e2 (by simp)
+      omega
+  | succ d ih =>
+    intro l A R C sibs f hld hne hinv hf'
+    have hl : l + 2 ≤ h := by omega
+    have hfA : A.length ≤ f := by
+      have : (d + 1) * A.length = d * A.length + A.length := by ring
+      omega
+    rcases calcLayer hf n h hnH l hl A.length A [] R C sibs f rfl hinv hfA with hlay | hfail
+    swap
+    · right; exact hfail
+    simp only [calcSpec]
+    cases hr : layerStep hf n l A sibs with
+    | none => rw [hr] at hlay; left; exact hlay
+    | some x =>
+      obtain ⟨P, s'⟩ := x
+      rw [hr] at hlay
+      simp only at hlay ⊢
+      obtain ⟨R', C', hinv', heq⟩ := hlay
+      simp only [List.nil_append] at hinv' heq
+      have hlenP := (layerStep_ok hf n l A.length A sibs P s' rfl hinv.okA hr).2
+      have hPne := layerStep_nonempty hf n l A sibs P s' hne hr
+      have hwl : wl h l [] P = wl h (l + 1) P [] := by simp [wl]
+      rw [heq, hwl]
+      have hfuel : d * P.length + 1 ≤ f - A.length := by
+        have h1 : d * P.length ≤ d * A.length := Nat.mul_le_mul_left _ hlenP
+        have : (d + 1) * A.length = d * A.length + A.length := by ring
+        omega
+      exact ih (l + 1) P R' C' s' (f - A.length) (by omega) hPne (CInv_next hinv') hfuel
+
+
+/-! ### `calculatePathNodes` / `VerifyProof` for several leaves and the specification -/
+
+theorem insertBy_map {α β : Type} (le : α → α → Bool) (le' : β → β → Bool) (f : α → β) (a : α) (l : List α)
+    (h : ∀ b ∈ l, le' (f a) (f b) = le a b) : insertBy le' (f a) (l.map f) = (insertBy le a l).map f := by
+  induction l with
+  | nil => rfl
+  | cons b r ih =>
+    simp only [List.map_cons, insertBy, h b (by simp)]
+    split
+    · rfl
+    · simp only [List.map_cons]
+      rw [ih (fun c hc => h c (by simp [hc]))]
+
+theorem isort_map {α β : Type} (le : α → α → Bool) (le' : β → β → Bool) (f : α → β) (l : List α)
+    (h : ∀ a ∈ l, ∀ b ∈ l, le' (f a) (f b) = le a b) : isort le' (l.map f) = (isort le l).map f := by
+  induction l with
+  | nil => rfl
+  | cons a r ih =>
+    simp only [List.map_cons, isort]
+    rw [ih (fun x hx y hy => h x (by simp [hx]) y (by simp [hy]))]
+    exact insertBy_map le le' f a _ (fun b hb => h a (by simp) b (by simp [(mem_isort le r b).1 hb]))
+
+theorem initResult_lookup : ∀ (idxs : List Nat) (q : List Bytes) (m : List (Nat × Bytes)), idxs.Nodup →
+    (∀ i ∈ idxs, i ≠ 0) → q.length = idxs.length →
+    (∀ key, key ∉ idxs → (initResult q idxs m).lookup key = m.lookup key) ∧
+    (∀ e ∈ idxs.zip q, (initResult q idxs m).lookup e.1 = some e.2) := by
+  intro idxs
+  induction idxs with
+  | nil =>
+    intro q m _ _ hl
+    have : q = [] := List.eq_nil_of_length_eq_zero (by simpa using hl)
+    subst this
+    simp [initResult]
+  | cons i is ih =>
+    intro q m hnd hnz hl
+    match q, hl with
+    | v :: qs, hl =>
+      have hi0 : (i == 0) = false := by simpa using hnz i (by simp)
+      simp only [initResult, hi0, Bool.false_eq_true, if_false]
+      have hnd' := List.nodup_cons.mp hnd
+      obtain ⟨h1, h2⟩ := ih qs (mapSet m i v) hnd'.2 (fun j hj => hnz j (by simp [hj])) (by simpa using hl)
+      constructor
+      · intro key hkey
+        simp only [List.mem_cons, not_or] at hkey
+        rw [h1 key hkey.2, lookup_mapSet_ne _ _ _ _ hkey.1]
+      · intro e he
+        simp only [List.zip_cons_cons, List.mem_cons] at he
+        rcases he with rfl | he
+        · rw [h1 i hnd'.1, lookup_mapSet_self]
+        · exact h2 e he
+
+theorem foldl_add_const (c : Nat) : ∀ (l : List Nat) (a : Nat), (∀ x ∈ l, x = c) →
+    l.foldl (· + ·) a = a + l.length * c := by
+  intro l
+  induction l with
+  | nil => intro a _; simp
+  | cons x r ih =>
+    intro a h
+    simp only [List.foldl_cons, List.length_cons]
+    rw [ih (a + x) (fun y hy => h y (by simp [hy])), h x (by simp)]
+    ring
+
+theorem sumBitLen_const (l : List Nat) (c : Nat) (h : ∀ x ∈ l, bitLen x = c) : sumBitLen l = l.length * c := by
+  unfold sumBitLen
+  rw [foldl_add_const c (l.map bitLen) 0 (by
+    intro x hx
+    simp only [List.mem_map] at hx
+    obtain ⟨y, hy, rfl⟩ := hx
+    exact h y hy)]
+  simp
+
+/-- the queried leaves with their hashes, in ascending order of position -/
+def layer0 (pos : List Nat) (q : List Bytes) : Lay := isort (fun a b => decide (a.1 ≤ b.1)) (pos.zip q)
+
+theorem layer0_perm (pos : List Nat) (q : List Bytes) : (layer0 pos q).Perm (pos.zip q) := isort_perm _ _
+
+theorem layer0_asc (pos : List Nat) (q : List Bytes) (hnd : pos.Nodup) (hlen : q.length = pos.length) :
+    (layer0 pos q).Pairwise (fun x y => x.1 < y.1) := by
+  have hle : (layer0 pos q).Pairwise (fun x y => decide (x.1 ≤ y.1) = true) :=
+    isort_pairwise _ (by intro a b c h1 h2; simp at h1 h2 ⊢; omega) (by intro a b; simp; omega) _
+  have hnd2 : ((layer0 pos q).map (·.1)).Nodup := by
+    have hp : ((layer0 pos q).map (·.1)).Perm ((pos.zip q).map (·.1)) := (layer0_perm pos q).map _
+    rw [hp.nodup_iff]
+    have : (pos.zip q).map (·.1) = pos := List.map_fst_zip (by omega)
+    rw [this]; exact hnd
+  generalize layer0 pos q = A at hle hnd2
+  induction A with
+  | nil => exact List.Pairwise.nil
+  | cons a r ih =>
+    have h1 := List.pairwise_cons.mp hle
+    simp only [List.map_cons] at hnd2
+    have h2 := List.nodup_cons.mp hnd2
+    refine List.pairwise_cons.mpr ⟨?_, ih h1.2 h2.2⟩
+    intro b hb
+    have := h1.1 b hb
+    simp at this
+    have hne : a.1 ≠ b.1 := fun e => h2.1 (by rw [e]; exact List.mem_map_of_mem hb)
+    omega
+
+
+theorem nIdx_zero (h p : Nat) : nIdx h 0 p = 2 ^ h + p := by simp [nIdx]
+
+theorem sortIdx_layer0 (n h : Nat) (pos : List Nat) (q : List Bytes) (hnH : n ≤ 2 ^ (h - 1))
+    (hlt : ∀ p ∈ pos, p < n) (hlen : q.length = pos.length) :
+    sortIdx ((pos.map fun p => 2 ^ h + p).filter (· != 0)) = wl h 0 (layer0 pos q) [] := by
+  have hpos : 0 < 2 ^ h := Nat.pow_pos (by decide)
+  have hle : 2 ^ (h - 1) ≤ 2 ^ h := Nat.pow_le_pow_right (by decide) (by omega)
+  have hfil : (pos.map fun p => 2 ^ h + p).filter (· != 0) = pos.map fun p => 2 ^ h + p := by
+    rw [List.filter_eq_self]
+    intro a ha
+    simp only [List.mem_map] at ha
+    obtain ⟨p, _, rfl⟩ := ha
+    simp
+  have hzip : (pos.map fun p => 2 ^ h + p) = (pos.zip q).map (fun e => 2 ^ h + e.1) := by
+    conv => lhs; rw [← List.map_fst_zip (l₁ := pos) (l₂ := q) (by omega)]
+    rw [List.map_map]; rfl
+  rw [hfil, hzip]
+  unfold sortIdx layer0
+  rw [isort_map (fun a b => decide (a.1 ≤ b.1)) _ (fun e : Nat × Bytes => 2 ^ h + e.1)]
+  · simp [wl, nIdx_zero]
+  · intro a ha b hb
+    have ha' : a.1 < 2 ^ (h - 0) := by
+      have := hlt a.1 (List.of_mem_zip ha).1; simp; omega
+    have hb' : b.1 < 2 ^ (h - 0) := by
+      have := hlt b.1 (List.of_mem_zip hb).1; simp; omega
+    have h1 := bitLen_nIdx ha'
+    have h2 := bitLen_nIdx hb'
+    rw [nIdx_zero] at h1 h2
+    unfold idxLt
+    rw [h1, h2]
+    simp only [beq_self_eq_true, if_true]
+    by_cases hab : a.1 ≤ b.1
+    · simp [hab]
+    · simp [hab]; omega
+
+theorem CInv_init (n h : Nat) (pos : List Nat) (q : List Bytes) (hnd : pos.Nodup) (hlt : ∀ p ∈ pos, p < n)
+    (hlen : q.length = pos.length) :
+    CInv n h 0 (layer0 pos q) [] (initResult q (pos.map fun p => 2 ^ h + p) []) [] := by
+  have hpos : 0 < 2 ^ h := Nat.pow_pos (by decide)
+  have hmem : ∀ e, e ∈ layer0 pos q ↔ e ∈ pos.zip q := fun e => (layer0_perm pos q).mem_iff
+  have hndI : (pos.map fun p => 2 ^ h + p).Nodup :=
+    List.Pairwise.map _ (fun a b (hab : a ≠ b) => by intro e; exact hab (by omega)) hnd
+  obtain ⟨hi1, hi2⟩ := initResult_lookup (pos.map fun p => 2 ^ h + p) q [] hndI
+    (by intro i hi; simp only [List.mem_map] at hi; obtain ⟨p, _, rfl⟩ := hi; omega) (by simpa using hlen)
+  refine ⟨layer0_asc pos q hnd hlen, ?_, List.Pairwise.nil, (fun e he => by cases he), (fun b hb => by cases hb),
+    ?_, (fun e he => by cases he), ?_⟩
+  · intro e he
+    have := hlt e.1 (List.of_mem_zip ((hmem e).1 he)).1
+    simpa using this
+  · intro e he
+    have hez := (hmem e).1 he
+    have hp := hlt e.1 (List.of_mem_zip hez).1
+    have hin : (2 ^ h + e.1, e.2) ∈ (pos.map fun p => 2 ^ h + p).zip q := by
+      rw [List.zip_map_left]
+      exact List.mem_map.mpr ⟨e, hez, rfl⟩
+    have hl := hi2 _ hin
+    simp only at hl
+    have hprop : proper n 0 e.1 := Or.inl ⟨rfl, hp⟩
+    rw [repLoc_proper hprop]
+    simp only [locIdx, nIdx_zero, look, hl, and_self]
+  · intro key v hv
+    have hkey : key ∈ pos.map fun p => 2 ^ h + p := by
+      rcases Classical.em (key ∈ pos.map fun p => 2 ^ h + p) with h | h
+      · exact h
+      · rw [hi1 key h] at hv; cases hv
+    simp only [List.mem_map] at hkey
+    obtain ⟨p, hp, rfl⟩ := hkey
+    have hpz : p ∈ (pos.zip q).map (·.1) := by rw [List.map_fst_zip (by omega)]; exact hp
+    simp only [List.mem_map] at hpz
+    obtain ⟨e, he, rfl⟩ := hpz
+    refine ⟨0, e.1, by omega, by simpa using hlt e.1 hp, (nIdx_zero h e.1).symm, Or.inl ⟨Nat.le_refl _, e, (hmem e).2 he, by simp⟩⟩
+
+/-- `calculatePathNodes` on distinct leaf indexes computes the root of the specification -/
+theorem calcPathNodes_spec (hf : HashFns) (n : Nat) (hn : 1 ≤ n) (pos : List Nat) (q sibs : List Bytes)
+    (hnd : pos.Nodup) (hlt : ∀ p ∈ pos, p < n) (hlen : q.length = pos.length) (hne : pos ≠ []) :
+    (match calcSpec hf n (getHeight n - 1) 0 (layer0 pos q) sibs with
+      | none => calcPathNodes hf q n (pos.map fun p => 2 ^ getHeight n + p) sibs = none
+      | some r => ∃ res, calcPathNodes hf q n (pos.map fun p => 2 ^ getHeight n + p) sibs = some res ∧
+          res.lookup 2 = some r) ∨
+    (calcPathNodes hf q n (pos.map fun p => 2 ^ getHeight n + p) sibs = none ∧ 30 < getHeight n) := by
+  have hh1 : 1 ≤ getHeight n := by simp [getHeight]
+  have hnH : n ≤ 2 ^ (getHeight n - 1) := by
+    have := le_two_pow_clog2 n hn
+    simpa [getHeight] using this
+  have htop : 2 ≤ getHeight n → 2 ^ (getHeight n - 2) < n := by
+    intro h2
+    have hn2 : 2 ≤ n := by
+      rcases Nat.lt_or_ge n 2 with h | h
+      · have : n = 1 := by omega
+        subst this; simp [getHeight, clog2] at h2
+      · exact h
+    have := two_pow_clog2_lt hn2
+    simpa [getHeight] using this
+  have hposlen : 0 < pos.length := List.length_pos_iff.mpr hne
+  unfold calcPathNodes
+  have hc1 : (q.length != (pos.map fun p => 2 ^ getHeight n + p).length) = false := by simp [hlen]
+  have hc2 : (q.length == 0) = false := by rw [hlen]; simpa using hne
+  simp only [hc1, hc2, Bool.false_eq_true, if_false]
+  rw [sortIdx_layer0 n (getHeight n) pos q hnH hlt hlen]
+  have hl0 : (layer0 pos q).length = pos.length := by
+    rw [(layer0_perm pos q).length_eq]; simp; omega
+  have hA0ne : layer0 pos q ≠ [] := by
+    intro e; rw [e] at hl0; simp at hl0; omega
+  have hsum : sumBitLen (wl (getHeight n) 0 (layer0 pos q) []) = pos.length * (getHeight n + 1) := by
+    rw [sumBitLen_const _ (getHeight n + 1)]
+    · simp [wl, hl0]
+    · intro x hx
+      simp only [wl, List.map_nil, List.append_nil] at hx
+      obtain ⟨e, he, rfl⟩ := List.mem_map.mp hx
+      have hp := hlt e.1 (List.of_mem_zip ((layer0_perm pos q).mem_iff.1 he)).1
+      have hle : 2 ^ (getHeight n - 1) ≤ 2 ^ (getHeight n - 0) := Nat.pow_le_pow_right (by decide) (by omega)
+      have := bitLen_nIdx (show e.1 < 2 ^ (getHeight n - 0) by omega)
+      simpa using this
+  rw [hsum]
+  refine calcLoop_spec hf n (getHeight n) hnH hh1 htop (getHeight n - 1) 0 (layer0 pos q) _ [] sibs _ (by omega)
+    hA0ne (CInv_init n (getHeight n) pos q hnd hlt hlen) ?_
+  rw [hl0]
+  have : (getHeight n - 1) * pos.length ≤ pos.length * (getHeight n + 1) := by
+    rw [Nat.mul_comm]; exact Nat.mul_le_mul_left _ (by omega)
+  omega
+
+
+/-- what an accepted proof for distinct leaf indexes means in terms of the specification -/
+theorem verify_calcSpec (hf : HashFns) (n : Nat) (hn : 1 ≤ n) (pos : List Nat) (q sibs : List Bytes) (root : Bytes)
+    (hnd : pos.Nodup) (hlt : ∀ p ∈ pos, p < n) (hlen : q.length = pos.length) (hne : pos ≠ [])
+    (hv : verifyProof hf q ⟨n, pos.map fun p => 2 ^ getHeight n + p, sibs⟩ root = true) :
+    calcSpec hf n (getHeight n - 1) 0 (layer0 pos q) sibs = some root := by
+  unfold verifyProof at hv
+  simp only [show ¬ n = 0 by omega, if_false] at hv
+  rcases calcPathNodes_spec hf n hn pos q sibs hnd hlt hlen hne with hs | ⟨hnone, _⟩
+  · cases hc : calcSpec hf n (getHeight n - 1) 0 (layer0 pos q) sibs with
+    | none => rw [hc] at hs; simp only at hs; rw [hs] at hv; cases hv
+    | some r =>
+      rw [hc] at hs
+      simp only at hs
+      obtain ⟨res, h1, h2⟩ := hs
+      rw [h1] at hv
+      simp only [h2, beq_iff_eq] at hv
+      rw [hv]
+  · rw [hnone] at hv; cases hv
+
+theorem calcSpec_verify (hf : HashFns) (n : Nat) (hn : 1 ≤ n) (pos : List Nat) (q sibs : List Bytes) (root : Bytes)
+    (hnd : pos.Nodup) (hlt : ∀ p ∈ pos, p < n) (hlen : q.length = pos.length) (hne : pos ≠ [])
+    (hb : getHeight n ≤ 30)
+    (hs : calcSpec hf n (getHeight n - 1) 0 (layer0 pos q) sibs = some root) :
+    verifyProof hf q ⟨n, pos.map fun p => 2 ^ getHeight n + p, sibs⟩ root = true := by
+  unfold verifyProof
+  simp only [show ¬ n = 0 by omega, if_false]
+  rcases calcPathNodes_spec hf n hn pos q sibs hnd hlt hlen hne with hc | ⟨_, h30⟩
+  · rw [hs] at hc
+    simp only at hc
+    obtain ⟨res, h1, h2⟩ := hc
+    rw [h1]
+    simp [h2]
+  · omega
+
+/-- soundness of `VerifyProof` for several distinct leaf indexes -/
+theorem verify_sound_multi (hf : HashFns) (hinj : BranchInj hf) (L : List Bytes) (pos : List Nat) (q sibs : List Bytes)
+    (hnd : pos.Nodup) (hlt : ∀ p ∈ pos, p < L.length) (hlen : q.length = pos.length)
+    (hv : verifyProof hf q ⟨L.length, pos.map fun p => 2 ^ getHeight L.length + p, sibs⟩ (rootH hf L) = true) :
+    ∀ k (hk : k < pos.length), L[pos[k]]? = q[k]? := by
+  intro k hk
+  have hne : pos ≠ [] := by intro e; rw [e] at hk; simp at hk
+  have hp0 := hlt pos[k] (List.getElem_mem hk)
+  have hn : 1 ≤ L.length := by omega
+  have hnH : L.length ≤ 2 ^ (getHeight L.length - 1) := by
+    have := le_two_pow_clog2 L.length hn
+    simpa [getHeight] using this
+  have hspec := verify_calcSpec hf L.length hn pos q sibs (rootH hf L) hnd hlt hlen hne hv
+  have hok : LayOK L.length 0 (layer0 pos q) := (CInv_init L.length (getHeight L.length) pos q hnd hlt hlen).okA
+  have hall := calcSpec_sound hf hinj L (getHeight L.length - 1) 0 (layer0 pos q) sibs (by simpa using hnH) hok hspec
+  have hkq : k < q.length := by omega
+  have hmem : (pos[k], q[k]) ∈ layer0 pos q := by
+    rw [(layer0_perm pos q).mem_iff]
+    have : (pos.zip q)[k]'(by simp; omega) = (pos[k], q[k]) := by simp
+    rw [← this]; exact List.getElem_mem _
+  have := hall _ hmem
+  simp only at this
+  rw [List.getElem?_eq_getElem hkq, this]
+  have hl : L[pos[k]]? = some L[pos[k]] := List.getElem?_eq_getElem hp0
+  rw [blk_leaf L pos[k] _ hl, rootH_singleton, hl]
 
 
 end LiskVerif.RMT
